@@ -12,834 +12,423 @@ Definition show_fres (r : fres) : string :=
   end.
 Definition check (rs : list rune) : string := digest (show_fres (format_res rs)).
 Definition full (rs : list rune) : string := show_fres (format_res rs).
-Eval vm_compute in ("<<<M3659>>>" ++ check (runes_of_ascii "
-options
-
-    {
-
-    ArrayPrefixLenType
-
-= u16
-    ;
-
-    FixedStringPadFromLeft 
-=
-
-    true
-
-    ;JavaPackage = ""com.example.msg""	;
-	GoPackage
-	= ""msg""; GoModule
-	= ""example.com/msg"" ;
-
-    }
-MetaData  Meta	{ u32  SeqNum 
-`sequence number`,char[
-
-    8 ]Symbol
-
-    `symbol`
-
-,
-zchar[ 5 ]
-    ZSym
-    `z symbol`
-,	string  Note
-,
-    Symbol
-
-AltSymbol `alias of symbol`
-	,
-f64
-Price
-,
+Eval vm_compute in ("<<<M1574>>>" ++ check (runes_of_ascii "options {
+    ArrayPrefixLenType = u16;
+    FixedStringPadFromLeft = true;
+    JavaPackage = ""com.example.msg"";
+    GoPackage = ""msg"";
+    GoModule = ""example.com/msg"";
 }
-packet
+MetaData Meta {
+    u32 SeqNum `sequence number
+more`,
+    char[8] Symbol `symbol
+more`,
+    zchar[5] ZSym `z symbol
+more`,
+    string Note,
+    Symbol AltSymbol `alias of symbol`,
+    f64 Price,
+}
+packet Inner {
+    u8 a,
+    i16 b,
+    string c,
+}
+packet Inner2 {
+    u8 a2,
+    char[3] c2,
+}
+packet Logon {
+    u8 x,
+    string user,
+    repeat u16 codes,
+}
+packet Logout {
+    u16 reason,
+}
+packet Empty {
+}
+root packet Msg {
+    u8 su8,
+    uint8 luint8,
+    u16 su16,
+    uint16 luint16,
+    u32 su32,
+    uint32 luint32,
+    u64 su64,
+    uint64 luint64,
+    i8 si8,
+    int8 lint8,
+    i16 si16,
+    int16 lint16,
+    i32 si32,
+    int32 lint32,
+    i64 si64,
+    int64 lint64,
+    f32 sf32,
+    float32 lfloat32,
+    f64 sf64,
+    float64 lfloat64,
+    char[6] fsplain,
+    @leftPad('0') char[4] fs0,
+    @rightPad('0') char[5] fs1,
+    @leftPad(' ') char[6] fs2,
+    @rightPad(' ') char[7] fs3,
+    @leftPad('\x00') char[8] fs4,
+    @rightPad('\x00') char[9] fs5,
+    @leftPad() char[10] fs6,
+    @rightPad() char[11] fs7,
+    zchar[7] fz,
+    @leftPad('0') zchar[3] fzl0,
+    string s1 `doc`,
+    char[] s2,
+    Inner,
+    Sub {
+        u8 q,
+        string w,
+        Deep {
+            u16 z,
+            repeat i32 zs,
+        },
+    },
+    repeat u8 ru8,
+    repeat u16 ru16,
+    repeat u32 ru32,
+    repeat u64 ru64,
+    repeat i8 ri8,
+    repeat i16 ri16,
+    repeat i32 ri32,
+    repeat i64 ri64,
+    repeat f32 rf32,
+    repeat f64 rf64,
+    repeat string rstr,
+    repeat char[] rstr2,
+    repeat char[3] rfs,
+    repeat zchar[3] rfz,
+    repeat Inner2,
+    repeat Grp {
+        u8 k,
+        char[2] v,
+    },
+    SeqNum,
+    SeqNum seq2,
+    repeat SeqNum seqs,
+    Symbol,
+    AltSymbol alt,
+    ZSym,
+    Note,
+    repeat Symbol syms,
+    Price px,
+    u16 MsgType,
+    u32 BodyLen @lengthOf(Body),
+    match MsgType as Body {
+        1 : Logon,
+        [2, 3] : Logout,
+        7 : Logon,
+        9 : Empty,
+    },
+    u32 Checksum @calculatedFrom(""CRC32""),
+}
+")).
+Eval vm_compute in ("<<<M2120>>>" ++ check (runes_of_ascii "packet
+BodyLength// packet A { u8 x, }
 
-Inner
-    {
-    u8 a  ,i16
-	b ,  string
-c
-,
-    }  packet Inner2 {
-
-u8 
-a2 , char[ 3
-]c2 ,
-
-} packet
-Logon 
-{  u8
-x, 
-string
-
-user
-,	repeat u16  codes
-	,
-} packet  Logout{	u16 reason, }  packet	Empty { 
-}root packet
-
-    Msg 
-{	u8 su8 
-,
-	uint8 
-luint8
+{  leftPad
+lengthOf
+,float
+rootA  `it's`
 
     ,
-	u16	su16 ,uint16 luint16,	u32
 
-su32 ,
-
-    uint32  luint32
-
-, u64	su64  ,	uint64 
-luint64,
-	i8 si8  ,	int8	lint8
-
-    ,
-
-    i16
-si16 ,	int16 lint16
-,
-
-    i32 si32
-,
-
-int32
-lint32
-
-    ,	i64
-    si64
-,
-	int64 lint64,
-
-f32 
-sf32
-, float32 
-lfloat32, 
-f64
-sf64 ,	float64
-
-    lfloat64
-	,char[
-6
-	]
-fsplain
-    , @leftPad
-
-    (
-'0' )
-
-    char[
-    4]
-
-fs0
-,
-
-@rightPad
-	(  '0'
-
-)char[5  ]
-    fs1  , 
-@leftPad
-    (
-' '
-	) char[	6
-    ]
-
-    fs2,@rightPad
-	(
-    ' ' )
-char[
-
-    7]
-	fs3 , 
-@leftPad
-(
-'\x00'
-)char[
-
-8 ]  fs4
-
-,
-	@rightPad
-( '\x00'	)  char[
-
-    9
-]
-    fs5,@leftPad
-(
-
-    )	char[ 
-10 ] fs6
-,
-
-    @rightPad
-(
-    )
-char[
-11
-	]fs7
-	,zchar[
-7
-	]fz
-    ,
-
-@leftPad
-(
+    @leftPad (
 '0'
 
-) zchar[ 
-3] fzl0
-
-,
-string
-
-    s1`doc`, char[]s2, Inner
-
-    , 
-Sub
-    {u8
-
-q,
-string 
-w	,
-	Deep
-    { 
-u16
-z , repeat
-	i32	zs ,  }
-    ,
-}
-
-,
+    )
 
     repeat
-u8 ru8
-	,
+BodyLength,  @rightPad  ( )i16 	 // a // b
+  	falsey
 
-    repeat u16
-ru16, repeat u32
-ru32
-,
+    @lengthOf( 	 // a // b
+	i64_)	,// `tick` ""quote"" 'q'
+    repeat char[ 
+0123456789]uint8x,	repeat
 
-repeat
-u64
-ru64
+    // " ++ [27880; 37322]%N ++ runes_of_ascii "
+		f64
+i64_, a1
 
-,repeat	i8 ri8
-    ,repeat
-	i16	ri16 ,
-    repeat 
-i32
-ri32
-	, repeat i64 ri64	,repeat
-f32 rf32 ,  repeat  f64 
-rf64  , repeat
-string rstr
-
-    ,  repeat  char[]rstr2,repeat
-    char[
-
-3]
-rfs
-, repeat
-
-zchar[
-
-    3 ] rfz  ,repeat Inner2 
-, repeat Grp
-    {u8	k
-	,
-
-    char[
-2 
+    tag  `" ++ [233]%N ++ runes_of_ascii "`	,char[ 10 
 ]
+packetx
 
-    v, 
-}
-    , SeqNum ,	SeqNum	seq2,
+`say ""hi""`	,
 
-repeat 
-SeqNum
-seqs,
-    Symbol 
-,
+repeat tag
+	metadata
+	`tab	here`
+, }
+	    /// triple
+	  options
+    { crc= """"
 
-AltSymbol
-	alt,
+; }  packet  int
 
-    ZSym
-
-    ,
-
-    Note ,
-
-repeat	Symbol
-syms
-
-, Price	px , 
-u16  MsgType
-
-,
-    u32
-
-    BodyLen
-@lengthOf( 
-Body )  ,
-match
-	MsgType	as
-Body
-
-{ 1
-
-:
-
-Logon
-,
-
-[ 2
-
-    , 3
-
-]
-:
-Logout
-	,	7
-
-    : Logon
-    ,
-    9
-: Empty
-
-    ,
-    } ,u32  Checksum
-
-@calculatedFrom(""CRC32""	)
-,
-    }")).
-Eval vm_compute in ("<<<M4516>>>" ++ check (runes_of_ascii "root packet packetx {
-    char[] pack @lengthOf(string_) `doc`,
-    u32 float @lengthOf(a1) `two words`,
-    match a1 as o {
-        7 : _x,
-    },
-    repeat msg_type {
-        o uint8x `crlf
-        line`,
-    },
-    char[] u8x @lengthOf(msg_type),
-    @calculatedFrom(""CRC32"")
-    i16 repeatCount @calculatedFrom(""a\""b""),
-    zchar[10] _x `line1
-    line2`,
-    zchar[10] x `u8 x,`,
-    char[0123456789] uint8x,
-    @calculatedFrom(""x y"")
-    int32 i8i8,
-}
-
-options {
-    matchKey = ""it's""
-}
-
-packet msg_type {
-    // trailing space 
-    //
-    match lengthOf as Logon {
-        [
-            ""x y"", ""a	b"", ""{,}"", """ ++ [28040; 24687]%N ++ runes_of_ascii """, ""{,}"",
-            ""{,}""
-        ] : asx,
-        [""" ++ [233]%N ++ runes_of_ascii "t" ++ [233]%N ++ runes_of_ascii """] : trueish,
-        255 : Pad,
-        [
-            ""`tick`"", ""{,}"", 4294967296, 4294967296, ""a\""b"",
-            ""\" ++ [233]%N ++ runes_of_ascii """, 0123456789
-        ] : u128,
-        ""it's"" : pack,
-        ""abc"" : o,
-    },
-    f32 zchar `it's`,
-    @calculatedFrom(""a	b"")
-    zchar[1] msg_type @calculatedFrom(""it's""),
-    @calculatedFrom(""packet"")
-    BodyLength {
-        i16 _x `{ , }`,
-        i8 body `crlf
-        line`,
-    },
-    repeat i64 uint8x `say ""hi""`,// c
-}
-
-packet chars {
-    match x as options1 {
-        3 : tag,
-        10 : repeatCount,
-        [65535] : len,
-        255 : tag,
-        00 : BodyLength,
-    },
-    @calculatedFrom(""{,}"")
-    MetaDataX,
-    @tag(0)
-    repeat stringy len,//	t
-    @calculatedFrom(""a	b"")
-    /// triple
-    zchar[0123456789] lengthOf @lengthOf(A) `u8 x,`,
-    @lengthOf(falsey)
-    T `// not a comment`,
-    i8i8,
-    Logon {
-        match crc as BodyLength {
-            ""1"" : trueish,
-            // " ++ [27880; 37322]%N ++ runes_of_ascii "
-            ""a\""b"" : matchKey,
-            [""x y""] : tag,
-            // trailing space 
-            // " ++ [128512]%N ++ runes_of_ascii " emoji
-        },
-        float @calculatedFrom(""" ++ [233]%N ++ runes_of_ascii "t" ++ [233]%N ++ runes_of_ascii """) `line1
-        line2`,
-        msg_type @lengthOf(i8i8),
-        calculatedFrom uint8x `tab	here`,
-        // a // b
-        //	t
-    },
-}")).
-Eval vm_compute in ("<<<M3997>>>" ++ check (runes_of_ascii "packet crc {
-    Logon {
-        u64 Z9_ @lengthOf(A),
-        f64 int,//
-        match BodyLength as MetaDataX {
-            """ ++ [28040; 24687]%N ++ runes_of_ascii """ : msg_type,
-            00 : falsey,
-            00 : tag,
-            ""it's"" : options1,
-            007 : len,
-            65535 : falsey,
-        },
-        repeat char[] int,//x
-    },
-}
-
-root packet repeatCount {
-}
-
-packet BodyLength {
-    stringy {
-        len `
-        `,
-    },
-    repeat i32 int,
-    match Foo as crc {
-        0 : i8i8,
-        3 : chars,
-    },
-    repeat x {
-        zchar[007] chars,
-        repeat chars {
-            repeat stringy {
-                x_y_z u128,
-                string options1 `two words`,
-                char[0123456789] body `crlf
-                line`,
-                repeat int32 i64_,
-            },
-            char[42] crc,
-            Pad `tab	here`,
-            f32a {
-                lengthOf f32a,
-            },
-        },
-    },
-    i8 stringy,
-    f32a {
-        match body as body {
-            ""\" ++ [233]%N ++ runes_of_ascii """ : u128,
-        },
-        repeat string len `a\`,
-        repeat As asx `it's`,
-    },
-}
-
-MetaData rootA {
-    //
-    //
-    metadata metadata,
-    A _x,
-    u T,
-    char[3] a1 `line1
-    line2`,
-    zchar[4294967296] packetx `{ , }`,
-    string Logon `" ++ [233]%N ++ runes_of_ascii "`,
-}
-
-packet BodyLength {
-    @calculatedFrom(""\n"")
-    int8 a1 @lengthOf(falsey),//
-    @calculatedFrom(""\" ++ [233]%N ++ runes_of_ascii """)
-    @tag(0123456789)
-    lengthOf,
-    @tag(007)
-    //
-    match Logon as f32a {
-        0 : zchar,
-    },
-    @lengthOf(i8i8)
-    match options1 as string_ {
-        [
-            ""a\""b"", 00, 4294967296, 4294967296, ""a	b"",
-            1
-        ] : A,
-    },
-}")).
-Eval vm_compute in ("<<<M766>>>" ++ check (runes_of_ascii "
-packet Packet {
-@tag( 10 // a // b
-) match trueish as x_y_z
-{ ""it's"" : i8i8 ,
-// " ++ [27880; 37322]%N ++ runes_of_ascii "
-// " ++ [27880; 37322]%N ++ runes_of_ascii "
-00: asx } , zchar[ 007] u
-@calculatedFrom( ""`tick`"")`line1
-line2`  ,
-    /// triple
-    chars @calculatedFrom( """"),
-    match
-    zchar
-as _x
-{00 : rootA
-""\" ++ [233]%N ++ runes_of_ascii """: metadata
-// c
-// trailing space 
-,	}
-// a // b
-//
-, body
     {
-    u32 u128 @calculatedFrom( ""{,}"" ) , repeat char[
-    //x
-    4294967296	]u `say ""hi""` ,
-} // c
+    repeat
+
+zchar[ 
+255	] i64_`two words`	//x
+
+,string
+    tag @lengthOf(	// a // b
+
+Header
+),  char chars
 ,
-    @lengthOf(stringy
-    ) float
-{string//x
-leftPad, repeat	uint16 Pad ,char u // @lengthOf(
-, // " ++ [128512]%N ++ runes_of_ascii " emoji
-i8i8 u ,
-    } ,	match o as
-x
-    {  [ ""`tick`"" ,
-""1"" , 10 ,
-//
-// c
-1 , 00, 0 , 255] :uint8x//
-, 0 : T , //
-1 :trueish 1
-: rootA, } // @lengthOf(
-, zchar[ //	t
-255 ] T`line1
-line2` , @leftPad ( '0' // c
-) @leftPad
-( '\x00')
-@tag(	007 ) match T
-as
-    u8x{ [ 007
-]
-: A , 0 :x,[ 4294967296 ] :
-charz,"""" : As //
-, 7
-    :// `tick` ""quote"" 'q'
-int ,
-65535: x_y_z
-,
-    }, // trailing space 
-} options{ /// triple
-x
-= '\x00' ; // packet A { u8 x, }
-}
-    // " ++ [128512]%N ++ runes_of_ascii " emoji
-    root packet i64_ {  @tag(4294967296  ) falsey options1// `tick` ""quote"" 'q'
-, uint64 Pad `doc` , @tag(
-65535 )
-    char
-// " ++ [128512]%N ++ runes_of_ascii " emoji
-/// triple
-Logon @calculatedFrom(
-    """"
-// @lengthOf(
-// c
-)
-    ,char[ 0 // @lengthOf(
-]MetaDataX `a\` /// triple
-, //
-metadata f32a `tab	here` , stringy Header ,
-    @leftPad () //x
-@calculatedFrom(// c
-""\" ++ [233]%N ++ runes_of_ascii """ ) @calculatedFrom(""" ++ [128512]%N ++ runes_of_ascii """ )
-    char[] body @calculatedFrom( ""a	b"" )	`a\` , }")).
-Eval vm_compute in ("<<<M3973>>>" ++ check (runes_of_ascii "// `tick` ""quote"" 'q'
-root packet As {
-}
 
-packet x_y_z {
-    @rightPad()
-    @tag(42)
-    @rightPad(' ')
-    repeat f32a charz,
-    match Header as stringy {
-        [1, 4294967296] : rootA,
-        0123456789 : x_y_z,
-        [65535, 255] : metadata,
-        [7, """ ++ [233]%N ++ runes_of_ascii "t" ++ [233]%N ++ runes_of_ascii """, ""{,}"", ""{,}""] : T,
-        ""packet"" : chars,
-        // trailing space 
-        [42, 00] : Logon,
-    },
-    repeat i8i8 {
-        tag @calculatedFrom(""" ++ [128512]%N ++ runes_of_ascii """) `{ , }`,
-    },
-    Z9_ @lengthOf(Packet),
-    // trailing space 
-    lengthOf,
-    trueish {
-        zchar[007] packetx,
-        zchar[0123456789] MetaDataX `// not a comment`,
-        rootA @lengthOf(Z9_) `" ++ [233]%N ++ runes_of_ascii "`,
-    },
-}
+    @lengthOf( crc 
+)match  asx
+	as Foo
+	{
+7 :
+BodyLength ,
+    ""packet"": 
+Z9_
+	,
 
-root packet u8x {
-    float64 len @calculatedFrom(""packet""),
-    u8 calculatedFrom,
-    @calculatedFrom(""a\""b"")
-    @calculatedFrom(""\n"")
-    // trailing space 
-    @lengthOf(Foo)
-    Logon @lengthOf(i8i8),// trailing space 
-    @calculatedFrom(""a\\"")
-    falsey @calculatedFrom(""" ++ [233]%N ++ runes_of_ascii "t" ++ [233]%N ++ runes_of_ascii """) `line1
-    line2`,
-    @leftPad('\x00')
-    // c
-    match i64_ as i64_ {
-        [0123456789] : a1,
-        [""1"", 3, 3, 7, 0] : string_,
-        """" : i64_,
-    },
-    @lengthOf(As)
-    // packet A { u8 x, }
-    T {
-        zchar[0] roots @lengthOf(options1),/// triple
-        u16 pack,//
-    },/// triple
-    string x `crlf
-    line`,
-}")).
-Eval vm_compute in ("<<<M3936>>>" ++ check (runes_of_ascii "packet packetx {
-    stringy {
-        repeat matchKey {
-            match falsey as matchKey {
-                0123456789 : float,
-                [""abc""] : u128,
-                // " ++ [27880; 37322]%N ++ runes_of_ascii "
-                // " ++ [128512]%N ++ runes_of_ascii " emoji
-                ""x y"" : i8i8,
-            },
-            match falsey as Foo {
-                65535 : trueish,
-            },
-        },
-        char[] roots @calculatedFrom(""" ++ [28040; 24687]%N ++ runes_of_ascii """),
-        zchar[0123456789] i64_,
-        zchar[42] MetaDataX @lengthOf(len),
-    },
-    pack @lengthOf(crc),
-    @tag(65535)
-    @leftPad()
-    @lengthOf(asx)
-    u8x {
-        repeat uint64 Pad,
-        x_y_z _x `
-                `,
-    },
-    MetaDataX stringy,
-    // trailing space 
-    @lengthOf(BodyLength)
-    string calculatedFrom @calculatedFrom(""\n"") `line1
-        line2`,
-    u32 u8x,
-    @tag(007)
-    //
-    //
-    @lengthOf(asx)
-    repeat uint8x {
-        match float as As {
-            [
-                ""1"", """", 255, 255, 007,
-                ""1""
-            ] : rootA,
-            ""1"" : msg_type,
-            65535 : f32a,
-            ""x y"" : leftPad,
-        },
-    },
-    u8 asx `u8 x,`,
-    len `it's`,
-}
+    007
+    :
+matchKey
 
-//x
-/// triple
-options {
-    falsey = true
-}")).
-Eval vm_compute in ("<<<M1254>>>" ++ check (runes_of_ascii "options{ o = u8
-    ; pack = true ; x = string
-// @lengthOf(
-// `tick` ""quote"" 'q'
-} packet i64_// packet A { u8 x, }
-{ @tag( 42
-    /// triple
-    )	@tag( 10
-)	@lengthOf(len )
-    match i8i8 as int // a // b
-{ [
-""""
-,007 , ""abc""
+    , }
+
     ,
-00 , 255
-, 00	,
-    """ ++ [28040; 24687]%N ++ runes_of_ascii """]
-    : MetaDataX ,
-    10: _x , 4294967296 :BodyLength
-    ,
-    ""packet"" : len // packet A { u8 x, }
-,""a	b""	: float , 10
-    : f32a
-}
-, zchar  `// not a comment`/// triple
-, u64 BodyLength	, @leftPad
-    /// triple
-    (
-)@calculatedFrom( ""abc""
-    ) match
-Foo as //
-T {
+uint16
+
+metadata // a // b
+, 
+i64_ { repeat u8  msg_type
+,stringy 
+{  char[ 
+0123456789  ]// c
+
+  o
+@calculatedFrom(""\n""  ) `" ++ [233]%N ++ runes_of_ascii "`
+
+, } 
+        /// triple
+// packet A { u8 x, }
+
+, zchar[
+	00  ]  stringy
+    `line1
+line2`
+    ,}, 
+@leftPad  //
+      ('0')	match uint8x as
+
+    u128 {
     [
-    10
-,""a	b"" ,	0123456789,
-""it's""	, 3 ] :	pack ,  [ 3 ,
-""CRC32"",
-""it's""
-, // @lengthOf(
-""CRC32"" ,
-""CRC32""
-    ] :
-crc , // c
-""packet"" : //
-msg_type ,
-}
-    ,
-string_ o
-    , @leftPad( ) char[] Header//	t
-`{ , }`
-    ,
-@tag(  007)
-    @lengthOf(  u128)
-pack
-    f32a , // packet A { u8 x, }
-repeat tag{ repeat
-As
-    {
-trueish,	}
+1  // a // b
+	  ,""abc"" ]: _x 
+""a	b"" :
+    Packet 
+// c
+3: _x//	t
+
 ,
-repeat
-    trueish { zchar[ 65535 ]stringy	,
-    // " ++ [27880; 37322]%N ++ runes_of_ascii "
-    }, zchar[ 65535]repeatCount// packet A { u8 x, }
-, repeat u8 stringy , }  ,
-} MetaData _x {string	o `" ++ [28040; 24687; 31867; 22411]%N ++ runes_of_ascii "`,matchKey trueish ,}
-options
-    { Packet=
-' ' ; }
-")).
-Eval vm_compute in ("<<<M705>>>" ++ check (runes_of_ascii "packet
-As // trailing space 
+    ""`tick`"": 
+packetx ,	""\n""
+:Header	,
+
+    } 
+,
+
+    x 
+// c
+    @calculatedFrom( 
+	/// triple
+  ""\n""
+
+    )
+,	zchar[
+    65535 ] Packet//x
+  ,  }MetaData
+Logon 
 {
-match asx as Header {  10
-:Packet ""abc""	:u ,
-    42
-:Header , [ ""a	b"" ,
-    255,42
-    ] // trailing space 
-:  leftPad 00 : int  , [ ""x y"",
-7] : packetx
-    , } , repeat zchar[
-007
-]options1
-, body // @lengthOf(
-MetaDataX
-    // " ++ [27880; 37322]%N ++ runes_of_ascii "
+}  packet packetx
+{
+
+@calculatedFrom(
+""a\\""	)
+    match
+roots 
+as
+Foo
+
+    {
+    [
+
+""\n""
+
     ,
-    @leftPad
-()
-string x_y_z ,
-    @lengthOf(x )
-@rightPad	('0' )match
-    T as tag { ""CRC32""
+
+4294967296
+	]
+:	asx	,
+00  : o , ""{,}""	: Header,
+255
+
+:	packetx
+, [
+255, 4294967296
+
+    ]
+
 :
-    stringy  ,00://x
-packetx [
-    // `tick` ""quote"" 'q'
-    255	,""packet"" // a // b
-]: A
-    , [ 255 ,
-//x
-//	t
-1
-//	t
-// @lengthOf(
-,
-    // @lengthOf(
-    ""abc"" , 1
-// " ++ [27880; 37322]%N ++ runes_of_ascii "
-//	t
-,
-""1"" , """ ++ [233]%N ++ runes_of_ascii "t" ++ [233]%N ++ runes_of_ascii """ , 10 , // packet A { u8 x, }
-00] : i8i8
-    ""\n"" // a // b
-:
-_x,
-    } ,MetaDataX {match trueish as uint8x { 1
-:x , 3
-:
-    a1 , ""a\""b"" : u128 ,  },
-} , float64 calculatedFrom @calculatedFrom( """ ++ [28040; 24687]%N ++ runes_of_ascii """
-//	t
-//x
-) // c
-`u8 x,`	,u64
-    float @lengthOf( // " ++ [128512]%N ++ runes_of_ascii " emoji
-matchKey ), }options
-{ metadata
-= //x
-""{,}""//
-a1 =
-    u8 ;
-falsey=  1 ; _x =
-zchar[65535 ] Header =	' ' }
-    MetaData T {
-} MetaData Z9_{  string
-// " ++ [27880; 37322]%N ++ runes_of_ascii "
-//	t
-f32a
-,
-len zchar
-    ,
+MetaDataX ,
+}
+	,}
+")).
+Eval vm_compute in ("<<<M1592>>>" ++ check (runes_of_ascii "options	{
+    StringPrefixLenType
+	= u16
+    ;
+
+ArrayPrefixLenType=
+	u8
+
+    ;
+    FixedStringPadFromLeft
+=
+
+    true;FixedStringPadChar
+    =
+	' ' 
+;  } packet Quote
+
+    { int64 OrderId	,
+
+    char[]	Ref
+, 
+@leftPad  (
+    '0'
+) char[
+	5
+] price ,
+
     }
+    packet  Heartbeat{zchar[ 3
+
+]
+
+    venue
+
+    ,
+string 
+Flags ,
+} packet
+    Trade { repeat	InTag787  {
+
+    i32 venue
+    ,	char[
+    5 ]
+sym
+,repeat InPx98
+
+    { 
+char[
+    11 ]Qty
+	,  Heartbeat ,
+
+char[]
+
+price  , u32
+x
+,
+float64
+
+count
+
+    , 
+repeat  Quote , }  ,  zchar[
+
+    7
+	]Note ,repeat	char[
+
+    1 ]
+Tail
+
+    ,} , 
+repeat char[ 2
+
+    ]
+seqNo,
+InTail55
+
+{
+
+repeat
+Quote
+
+,string
+msgKind ,
+InPx18
+    {
+
+char[]
+
+count	, 
+repeat	Quote  , uint16
+Qty
+
+    ,}
+    ,char[
+4 ]
+seqNo, repeat Heartbeat
+    ,
+repeat string	sym
+    ,  } ,
+	repeat
+
+    Quote
+    , Heartbeat  ,@leftPad ( 
+' ' ) char[
+
+    10
+    ] OrderId
+
+, }	root
+    packet  Fill 
+{
+
+    Heartbeat
+	, uint32
+
+count,
+	u8
+
+OrderId ,
+
+    match OrderId
+as
+Body{
+
+    96 :Quote ,
+195
+    :	Trade 
+,187
+
+: Heartbeat 
+,
+	}	,
+
+u32
+venue@calculatedFrom(  ""CR\
+C32"" ),}
+
 ")).
 Eval vm_compute in ("<<<M192>>>" ++ check (runes_of_ascii "//x
 packet	u8x { @lengthOf(  As
@@ -900,1802 +489,765 @@ float64 f32a ,@calculatedFrom(
 `" ++ [233]%N ++ runes_of_ascii "` ,
 uint64 Z9_ @calculatedFrom("""" ) `tab	here` , }
 ")).
-Eval vm_compute in ("<<<M735>>>" ++ check (runes_of_ascii "  root packet Packet{ @lengthOf( u128 ) match Foo
-    as metadata{[ """ ++ [28040; 24687]%N ++ runes_of_ascii """, ""a	b"" ] :Z9_ ""packet""
-: metadata	,[
-    0123456789 , 10 ,
-    // @lengthOf(
-    ""1"" , ""1""
-    /// triple
-    , 4294967296	,""it's"" ,
-    ""`tick`"" , ""{,}""]:
-As ,
-0 : repeatCount } , match rootA	as  zchar { 7
-    // `tick` ""quote"" 'q'
-    : // `tick` ""quote"" 'q'
-Logon
-    ,""a\\"" :
-body""" ++ [128512]%N ++ runes_of_ascii """
-: T// a // b
-, [ ""1""
-,
-""a\\"" , 65535
-    ,
-""" ++ [233]%N ++ runes_of_ascii "t" ++ [233]%N ++ runes_of_ascii """ ,	""x y"" // c
-, 3 // c
-]
-// a // b
-// trailing space 
-:
-/// triple
-// trailing space 
-len // trailing space 
-,""" ++ [128512]%N ++ runes_of_ascii """
-: o , }  ,  @lengthOf( options1 ) A @calculatedFrom(
-""a\""b"" )`" ++ [233]%N ++ runes_of_ascii "`
-, /// triple
-@rightPad
-    ( // c
-)  u64 i8i8 @calculatedFrom(""{,}"" ) `// not a comment`, repeat pack
-{ char[] MetaDataX
-, } , @lengthOf(
-// c
-// " ++ [128512]%N ++ runes_of_ascii " emoji
-roots ) // packet A { u8 x, }
-@lengthOf(	msg_type )
-@calculatedFrom( ""// no comment"" ) char[ 3 ]
-string_@lengthOf(
-    pack
-    ) // " ++ [27880; 37322]%N ++ runes_of_ascii "
-`doc` , }
-// `tick` ""quote"" 'q'
-")).
-Eval vm_compute in ("<<<M256>>>" ++ check (runes_of_ascii "packet
-Pad // " ++ [27880; 37322]%N ++ runes_of_ascii "
-{ @tag(	65535 )repeat char[
-    //	t
-    4294967296 ] o
-    `u8 x,`  ,
-@calculatedFrom(""x y"" )
-metadata // c
-@lengthOf(repeatCount )`tab	here`	,} packet u128 {
-// packet A { u8 x, }
-// " ++ [128512]%N ++ runes_of_ascii " emoji
-repeat // " ++ [128512]%N ++ runes_of_ascii " emoji
-zchar[
-10 ]_x// " ++ [27880; 37322]%N ++ runes_of_ascii "
-, /// triple
-}
-options
-{ /// triple
-msg_type
-= true ;}packet tag {// c
-@tag(7 ) i32
-f32a @lengthOf( u8x)
-`two words`
-,
-string
-Foo  @lengthOf( Foo ) ,
-@rightPad(
-'0' ) match As as
-// @lengthOf(
-// `tick` ""quote"" 'q'
-crc // a // b
-{"""": float , //	t
-} , repeat i16 i8i8 , @rightPad/// triple
-(
-    '0' ) repeat u128
-    { i64 tag
-@calculatedFrom( """ ++ [28040; 24687]%N ++ runes_of_ascii """ ) ,i8i8
-@calculatedFrom( // " ++ [27880; 37322]%N ++ runes_of_ascii "
-""{,}""
-)`it's` , repeat string
-    rootA /// triple
-, }, repeat string
-chars,
-    asx, match calculatedFrom as
-calculatedFrom {
-    ""a\""b"" :  Logon ""a	b"" : asx } , char zchar @calculatedFrom( ""1""
-    )
-    `say ""hi""`
-    ,  }
-")).
-Eval vm_compute in ("<<<M4387>>>" ++ check (runes_of_ascii "packet A {
-    calculatedFrom @lengthOf(zchar) `say ""hi""`,
-    @calculatedFrom(""{,}"")
-    repeat u8x uint8x `u8 x,`,
-    match o as matchKey {
-        [3, """"] : T,
-        //
-        ""{,}"" : calculatedFrom,
-    },
-    repeat char[255] u,
-    char[] Packet,
-    repeat int64 packetx,
-    @leftPad('\x00')
-    @calculatedFrom("""")
-    zchar {
-        // trailing space 
-        f32 zchar `" ++ [28040; 24687; 31867; 22411]%N ++ runes_of_ascii "`,
-        match u128 as options1 {
-            [
-                ""abc"", 10, 65535, 0, ""\n"",
-                """ ++ [128512]%N ++ runes_of_ascii """, 0123456789
-            ] : chars,
-            00 : As,
-            ""a	b"" : packetx,
-            10 : a1,
-            // packet A { u8 x, }
-        },
-    },
-    float64 calculatedFrom @lengthOf(packetx),
-    char[00] string_ `
-        `,
-    @calculatedFrom(""it's"")
-    @leftPad()
-    f32 BodyLength,
-}
-// " ++ [27880; 37322]%N)).
-Eval vm_compute in ("<<<M3910>>>" ++ check (runes_of_ascii "options {
-    metadata = ""a\""b"";
-    int = true;
-    chars = '\x00';
-    string_ = '\x00';
-}
-
-packet x {
-    match As as tag {
-        1 : zchar,
-        ""a	b"" : len,
-    },
-    Pad i64_,// " ++ [27880; 37322]%N ++ runes_of_ascii "
-    @tag(3)
-    leftPad {
-        // trailing space 
-        body,
-    },
-    char[] i8i8 `{ , }`,
-    charz {
-        repeat u16 zchar `two words`,
-    },
-    int64 Z9_ @calculatedFrom(""a\\""),
-    @rightPad('\x00')
-    metadata @lengthOf(i64_),
-    @lengthOf(int)
-    u32 u128,// packet A { u8 x, }
-    @tag(10)
-    // " ++ [27880; 37322]%N ++ runes_of_ascii "
-    // " ++ [128512]%N ++ runes_of_ascii " emoji
-    @rightPad('\x00')
-    //
-    @tag(007)
-    float {
-        int32 Pad `" ++ [233]%N ++ runes_of_ascii "`,
-        i16 options1 ``,
-        repeatCount,
-        chars @lengthOf(pack),
-    },
-    repeat int {
-        zchar[10] u `two words`,
-        i64 Logon,
-    },
-}")).
-Eval vm_compute in ("<<<M835>>>" ++ check (runes_of_ascii "
-MetaData crc  {
-} packet options1
-{ u32 int@lengthOf(
-int), @leftPad
-    /// triple
-    ( '\x00' )  repeat string uint8x
-,
-@lengthOf(
-    T )
-zchar trueish , @leftPad( )
-int32 // a // b
-i8i8 @lengthOf( u8x
-    // " ++ [27880; 37322]%N ++ runes_of_ascii "
-    ),
-// c
-// " ++ [27880; 37322]%N ++ runes_of_ascii "
-repeatCount@calculatedFrom( ""x y"" )
-    ,
-    Logon	falsey ,}options {
-int
-= ""\n"" //	t
-len=true ; _x= char
-As =	int16
-    ; }packet Z9_ { repeat rootA
-    , @lengthOf( a1 )  string_
-trueish
-    `" ++ [233]%N ++ runes_of_ascii "` ,
-int8	Foo , @tag(
-007) repeat falsey`// not a comment` /// triple
-, @tag(  0
-)f64 x @calculatedFrom( ""a\\""
-    // c
-    ) `// not a comment` , // `tick` ""quote"" 'q'
-uint64
-Header
-,
-u8 charz	@calculatedFrom( """ ++ [128512]%N ++ runes_of_ascii """) `" ++ [28040; 24687; 31867; 22411]%N ++ runes_of_ascii "` , i32 As @lengthOf(
-a1) `{ , }` , @calculatedFrom(
-    ""a	b"")
-uint16 x ,
-}
-")).
-Eval vm_compute in ("<<<M1262>>>" ++ check (runes_of_ascii "packet float{	x // " ++ [128512]%N ++ runes_of_ascii " emoji
-{ u128 @calculatedFrom( ""it's"" ) `line1
-line2` , } ,  match
-    packetx as roots
-{ """"
-    :
-body ,
-    007 : // " ++ [128512]%N ++ runes_of_ascii " emoji
-MetaDataX 7 //
-:
-stringy , 00: u8x,
-1
-    : lengthOf
-    ,  } , }packet asx
-{ match x
-as  repeatCount
-// " ++ [27880; 37322]%N ++ runes_of_ascii "
-//	t
-{
-// packet A { u8 x, }
-// a // b
-0
-:  float ,
-    // " ++ [27880; 37322]%N ++ runes_of_ascii "
-    },
-    charz
-    ,@tag( 0 ) @calculatedFrom( ""\" ++ [233]%N ++ runes_of_ascii """ )
-    // @lengthOf(
-    @lengthOf( asx ) falsey
-    //
-    roots
-,
-repeat u32	BodyLength // packet A { u8 x, }
-`line1
-line2`, //	t
-@rightPad(
-'\x00'
-) repeat
-zchar
-{u64 x_y_z
-`line1
-line2` , }  , // c
-@lengthOf(
-i64_ )@lengthOf(Header
-)
-@tag(1 )u8
-o	@calculatedFrom( // @lengthOf(
-""\n"") `doc`, } // trailing space ")).
-Eval vm_compute in ("<<<M119>>>" ++ check (runes_of_ascii "packet
-Pad {
-@lengthOf(stringy)MetaDataX  @calculatedFrom(""" ++ [28040; 24687]%N ++ runes_of_ascii """ ) `{ , }` ,
-//x
-/// triple
-char[ 0123456789 ]leftPad @lengthOf( float
-), asx leftPad `u8 x,` ,
-    @calculatedFrom(""\" ++ [233]%N ++ runes_of_ascii """ )
-    repeat  rootA
-    matchKey `" ++ [28040; 24687; 31867; 22411]%N ++ runes_of_ascii "`, @lengthOf( stringy
-    ) /// triple
-uint8x msg_type `u8 x,`, // c
-char[ 3
-]
-stringy `tab	here`  ,
-}
-MetaData metadata{ string_ zchar , float32 u128	,
-char[]
-    //	t
-    u128//x
-,} options
+Eval vm_compute in ("<<<M23>>>" ++ check (runes_of_ascii "root // c
+packet msg_type	{ repeat// packet A { u8 x, }
+A { repeat a1
+    { repeat  len// trailing space 
+, }
+    ,pack string_,	zchar[ 7 ] msg_type  @lengthOf(u
+) , } ,
+    repeat
+zchar[ // `tick` ""quote"" 'q'
+00] tag, u64 o@calculatedFrom(""a\\""
     // trailing space 
-    { zchar =""" ++ [28040; 24687]%N ++ runes_of_ascii """ ;
-msg_type = 007 ;	repeatCount = '\x00' ;	} packet
-_x { }  options
-{
-    asx
-=
-true;
-lengthOf =
-'0'  i8i8= '0'  crc =
-""abc""
-    /// triple
-    ; Packet
-// " ++ [128512]%N ++ runes_of_ascii " emoji
-// trailing space 
-= ' ' } // a // b")).
-Eval vm_compute in ("<<<M236>>>" ++ check (runes_of_ascii "MetaData As {  } packet float { // @lengthOf(
-options1  Pad `// not a comment` ,
-uint16 As `line1
-line2` ,float32 stringy@calculatedFrom(
-""`tick`""
-) `" ++ [233]%N ++ runes_of_ascii "` ,
-repeat Packet { zchar[ 3 ] T
-    @calculatedFrom(
-""x y""),  char[ 7 ]  asx @lengthOf( tag) ,
-    //
-    int64 charz `u8 x,`
-, } , uint32
-len , @tag(	0123456789
-) Foo packetx `// not a comment`,char[] trueish @lengthOf(
-rootA
-    ) , @leftPad (//
-'0'  ) repeat  x_y_z `{ , }` , i64 u128 ,
-    }
-    packet msg_type//x
-{
-char[]
-i8i8
-    `doc` //	t
-,string trueish @calculatedFrom(
-    """" ), char[ 7 ]/// triple
-string_// packet A { u8 x, }
-`say ""hi""`
-/// triple
-//
-,	}
-")).
-Eval vm_compute in ("<<<M13>>>" ++ check (runes_of_ascii "
-packet msg_type
-    // packet A { u8 x, }
-    {//	t
-string	packetx @lengthOf( charz )	, @calculatedFrom( """"  )
-repeat char[ 0123456789
-    ]
-    // c
-    int `it's` ,
-    @rightPad (// packet A { u8 x, }
-)
-@tag( 42 )
-    @calculatedFrom( ""`tick`""
-) repeat
-uint16
-falsey  `" ++ [233]%N ++ runes_of_ascii "`
-, i32 Foo , @tag(7 ) u64
-chars@lengthOf(  BodyLength ), i16
-    Z9_@lengthOf(/// triple
-a1 ) ,@lengthOf(leftPad ) lengthOf body ``	, @tag(
-    007 )
-char[
-    10 //x
-]
-_x
-// a // b
-// " ++ [27880; 37322]%N ++ runes_of_ascii "
-@lengthOf(
-    roots )	`
-` , // a // b
-@calculatedFrom(""a\\"" )
-    float64 //	t
-rootA`doc` , string T @calculatedFrom( """" ) , }")).
-Eval vm_compute in ("<<<M3996>>>" ++ check (runes_of_ascii "MetaData
-lengthOf
-{ }
-root
-packet 	 //x
-  falsey 
-
-    // " ++ [128512]%N ++ runes_of_ascii " emoji
-//x
-	  {	Pad // a // b
-		{zchar[
-1
-	]
-    Z9_  ,
-	msg_type 
-x_y_z
-
-    , match u8x as
-	trueish {
-    """ ++ [28040; 24687]%N ++ runes_of_ascii """ :asx
-	,  } , } 
-,  // `tick` ""quote"" 'q'
-  	@lengthOf(
-    rootA)
-    match
-
-zchar 
-as int
-{
-    ""`tick`"" 
-:len
-    ,
-""{,}"" :
-MetaDataX,
-	},i64
-rootA
-    //x
-
-`" ++ [28040; 24687; 31867; 22411]%N ++ runes_of_ascii "`	,	@calculatedFrom(
-
-    ""it's""
-	) 
-repeat  
-  /// triple
-  	metadata,
-T@lengthOf(
-u128)
-,uint64
-    Pad,// " ++ [27880; 37322]%N ++ runes_of_ascii "
-
-falsey	x , int16 leftPad  ,//	t
-	falsey@lengthOf( matchKey
-    ),zchar[  255 ]  u128  `u8 x,`
-    ,  }
-")).
-Eval vm_compute in ("<<<M4214>>>" ++ check (runes_of_ascii "packet
-tag
-
-{ 
-match
-	asx  as u128
-{
-
-    ""1""
-: T  0123456789// trailing space 
-
-	: 
-rootA
-
-    ,  7
-
-    :
-	i8i8
-	,  65535  :// `tick` ""quote"" 'q'
-    	chars,
-	}	, zchar[7
-]
-    options1 
-,
-	zchar[255
-
-    ] asx
-, @leftPad
-
-    (
-
-'0'
-
-    ) 
-stringy
-`" ++ [28040; 24687; 31867; 22411]%N ++ runes_of_ascii "`	,
-u64
-	zchar 
-@calculatedFrom( 
-  // c
-		""\n""
-	), 
-len
-
-// `tick` ""quote"" 'q'
-    // c
-	@calculatedFrom(  ""// no comment""
-)
-
-    `" ++ [28040; 24687; 31867; 22411]%N ++ runes_of_ascii "`	//	t
-    , 
-@leftPad
-
-( 
-'0'
-
-)  tag @lengthOf( calculatedFrom )
-
-,
-
-repeat 
-    //
-	  uint64
-    metadata `a\` ,
-    }
-")).
-Eval vm_compute in ("<<<M581>>>" ++ check (runes_of_ascii "// packet A { u8 x, }
-options{ // a // b
-} options
-    { matchKey = 00
-metadata =
-/// triple
-//
-float64 u8x// `tick` ""quote"" 'q'
-= 42
-    }
-packet
-    uint8x{
-    @lengthOf( matchKey
-)
-    float32 options1
-,
-@lengthOf( packetx ) repeat
-zchar[7 ]
-As ,@rightPad (
-)
-    // `tick` ""quote"" 'q'
-    uint64 repeatCount
-//	t
-// packet A { u8 x, }
-@lengthOf( leftPad	), @lengthOf( As
-) @leftPad(
-'\x00') // @lengthOf(
-Header options1, @lengthOf( // a // b
-packetx //
-) repeat
-    zchar[ 255
-    ] zchar `it's` , }
-")).
-Eval vm_compute in ("<<<M4408>>>" ++ check (runes_of_ascii "// `tick` ""quote"" 'q'
-options {
-    Pad = '0'
-}//
-
-packet zchar {
-    stringy {
-        match x as i64_ {
-            00 : len,
-            /// triple
-            ""`tick`"" : body,
-            3 : chars,
-            7 : uint8x,
-            0123456789 : Foo,
-        },
-        repeat chars i8i8,
-        float32 Logon @lengthOf(A) `tab	here`,
-    },
-}
-
-packet As {
-    @lengthOf(i64_)
-    repeat options1 {
-        a1 @calculatedFrom(""a\\""),
-    },
-    @calculatedFrom(""CRC32"")
-    matchKey,
-}")).
-Eval vm_compute in ("<<<M152>>>" ++ check (runes_of_ascii "
-options{	roots ='\x00' lengthOf
-=
-    true
-; Packet = // `tick` ""quote"" 'q'
-""packet"" ; o = // packet A { u8 x, }
-""packet"" ; A// " ++ [27880; 37322]%N ++ runes_of_ascii "
-=
-    //
-    true ; // trailing space 
-} packet body
-{ _x ,	zchar[
-65535
-]
-Header @calculatedFrom( // trailing space 
-""""  ) `u8 x,` , }
-root packet
-    //	t
-    T // trailing space 
-{ @tag(// trailing space 
-7) @tag( 0
-    )
-@leftPad( '0' )// a // b
-int64
-x @lengthOf( Packet )
-    , msg_type stringy
-`" ++ [28040; 24687; 31867; 22411]%N ++ runes_of_ascii "`/// triple
-, } /// triple")).
-Eval vm_compute in ("<<<M4599>>>" ++ check (runes_of_ascii "// @lengthOf(
-MetaData msg_type {
-}
-
-MetaData Logon {
-    i64 uint8x,
-    o u128,
-}
-
-packet body {
-    @calculatedFrom(""a	b"")
-    uint8x ``,
-}
-
-root packet roots {
-    repeat len f32a `crlf
-        line`,
-    @rightPad('\x00')
-    repeat i8i8 {
-        zchar @lengthOf(packetx) `a\`,
-        repeat msg_type,
-        char[] o `" ++ [233]%N ++ runes_of_ascii "`,
-        char[42] roots,
-        //x
-        // `tick` ""quote"" 'q'
-    },
-}
-
-MetaData pack {
-    repeatCount charz,
-}")).
-Eval vm_compute in ("<<<M349>>>" ++ check (runes_of_ascii "MetaData string_ {
-char[]
-Packet `
-`
-    , i8i8 A  ,
-string A
-`it's`
-,// trailing space 
-uint64 int
-, }
-// trailing space 
-// " ++ [27880; 37322]%N ++ runes_of_ascii "
-MetaData Z9_ { Header crc , // " ++ [27880; 37322]%N ++ runes_of_ascii "
-} MetaData T {// c
-float32 Z9_ `// not a comment`
-    , char[] /// triple
-uint8x`line1
-line2` ,
-Header u8x,
-char[ 3] a1	,
-    }MetaData Logon { a1 // " ++ [128512]%N ++ runes_of_ascii " emoji
-repeatCount `say ""hi""` , char[
-    42  ] Foo
-    ,
-    zchar[ 00
-    ] metadata
-,
-int16  zchar `it's` , }")).
-Eval vm_compute in ("<<<M4283>>>" ++ check (runes_of_ascii "packet
-	options1
-
-{ repeat	zchar[
-    7 
-]
-i8i8, _x
-
-    {zchar[ 65535]i8i8	@lengthOf(uint8x ),
-match x_y_z
-    as
-
-lengthOf  {	//x
-  [
-    00// " ++ [27880; 37322]%N ++ runes_of_ascii "
-	, 
-1  // " ++ [27880; 37322]%N ++ runes_of_ascii "
-    ,
-
-    10  , ""\" ++ [233]%N ++ runes_of_ascii """
-    ,
-42 ,00]
-    :Pad ,  [4294967296
-]:
-	asx 0123456789 
-:
-
-    x_y_z ,} 	 // trailing space 
-,zchar[
-
-0
-]
-    float ,
-
-}	,  int16
-	T
-@lengthOf(
-
-    charz
-
-    ) `` ,  }
-    MetaData
-pack
-{int64 	 //	t
-chars
-, }
-")).
-Eval vm_compute in ("<<<M328>>>" ++ check (runes_of_ascii "packet string_ { @lengthOf( int) BodyLength u8x,i64_ `tab	here`
-// " ++ [128512]%N ++ runes_of_ascii " emoji
-// @lengthOf(
-,char[  3 ] /// triple
-string_  ,repeat leftPad `" ++ [28040; 24687; 31867; 22411]%N ++ runes_of_ascii "`  ,
-repeat int32
-/// triple
-// `tick` ""quote"" 'q'
-BodyLength`u8 x,`, // `tick` ""quote"" 'q'
-@tag( 4294967296
-) BodyLength	`crlf
-line`
-    ,  msg_type Packet `" ++ [233]%N ++ runes_of_ascii "`
-    , float32 string_ // trailing space 
-@calculatedFrom(""""  )
-, asx int
-    `it's` , }
-")).
-Eval vm_compute in ("<<<M4370>>>" ++ check (runes_of_ascii "packet  leftPad
-
-{
+    ) ,  }
+    packet charz {@tag( 0
+) // c
 repeat
-
-string
-
-x , float
-	matchKey `u8 x,`	,repeat
-
-zchar[ 1 ]
-u8x
-`doc` ,@leftPad
-    (
-' '
+    // a // b
+    u {
+char[007 ] T,}, repeatCount @calculatedFrom( ""\n""
 )
-	i8i8
-@lengthOf(
-
-rootA 
-)	// c
-
-  ,
-
-//	t
-// trailing space 
-
-int8 	 //
-      x
-
-    `doc` , 
-// c
-	// @lengthOf(
-      @tag(
-	1
-	)	@leftPad
-
-    (	'\x00' )
-
-    @lengthOf( // packet A { u8 x, }
-    _x )  char[]
-
-    x @calculatedFrom( """" 
-) 
-, 
-}
+,
+}packet
+trueish {
+@calculatedFrom( ""a\\"") @rightPad
+    ('0' ) // `tick` ""quote"" 'q'
+@lengthOf( BodyLength
+) string asx @lengthOf( A	),
+//x
+/// triple
+@rightPad (
+' '
+) match pack
+    // @lengthOf(
+    as leftPad
+{  [
+1 ]// a // b
+:
+body , [ ""a	b""]
+:msg_type , // `tick` ""quote"" 'q'
+10 :calculatedFrom ,7 : packetx,
+""" ++ [233]%N ++ runes_of_ascii "t" ++ [233]%N ++ runes_of_ascii """
+: roots ,	}
+    ,@calculatedFrom(""1""
+    )  repeat roots
+    // c
+    u8x
+    ,}
 ")).
-Eval vm_compute in ("<<<M3655>>>" ++ check (runes_of_ascii "
-options 
+Eval vm_compute in ("<<<M27>>>" ++ check (runes_of_ascii "root packet Packet{ char[]
+    msg_type @calculatedFrom(""a\\"" ) , repeat
+    u16 a1
+`say ""hi""`
+,f32a
+stringy
+`u8 x,` ,
+    uint16 int	, @calculatedFrom( ""// no comment""
+) repeat
+// a // b
+// c
+u8 T, zchar[
+// packet A { u8 x, }
+// " ++ [27880; 37322]%N ++ runes_of_ascii "
+65535
+//x
+//
+]  T , // `tick` ""quote"" 'q'
+repeat chars	{ char[] tag //x
+`" ++ [233]%N ++ runes_of_ascii "`,int64 A	@calculatedFrom(	""\n"" )`// not a comment`
+, match trueish as i8i8 {[ ""a\""b""]	: MetaDataX, } , len {zchar[ 65535 ]o
+    @lengthOf( body  ) `a\`//
+, string options1`two words`
+    , tag
+    // `tick` ""quote"" 'q'
+    { T `{ , }`
+    , charz
+    ,i8 // trailing space 
+uint8x ,} ,char[]packetx// @lengthOf(
+@lengthOf(// c
+roots ) ,} ,
+    }
+,//
+string  x, } // trailing space ")).
+Eval vm_compute in ("<<<M312>>>" ++ check (runes_of_ascii "packet BodyLength // " ++ [27880; 37322]%N ++ runes_of_ascii "
+{ char[ 255 // " ++ [27880; 37322]%N ++ runes_of_ascii "
+]	_x, match body as repeatCount
+    { ""{,}"" :
+len }
+    , char[
+    0] Logon @calculatedFrom(	""{,}"" ) ,
+    // a // b
+    @rightPad() i64_//x
+@calculatedFrom( ""it's"" )
+    `crlf
+line` , } packet
+Header {
+match As as
+    chars
 {
-FixedStringPadFromLeft	=true
-
-;
-FixedStringPadChar  =  ' ' ;
+7: packetx , [ ""it's""  ]: u128
+,
+    [
+    4294967296 , ""{,}"" ] : f32a ,} ,
+    }packet asx { @calculatedFrom( ""1""
+)
+    a1
+// @lengthOf(
+//
+,
+//
+//x
+match x_y_z as  crc /// triple
+{
+// `tick` ""quote"" 'q'
+// `tick` ""quote"" 'q'
+""CRC32"" : As
+, 7
+:o , //x
+} ,match msg_type as Packet {""" ++ [233]%N ++ runes_of_ascii "t" ++ [233]%N ++ runes_of_ascii """ : metadata }, repeat u8
+i64_ ,// a // b
+}")).
+Eval vm_compute in ("<<<M1645>>>" ++ check (runes_of_ascii "packet int {
+    @calculatedFrom(""" ++ [28040; 24687]%N ++ runes_of_ascii """)
+    @tag(007)
+    options1 @calculatedFrom(""CRC32"") `tab	here`,
+    @lengthOf(As)
+    x x_y_z,
+    repeat x {
+        i64 Z9_,
+        zchar[007] body @lengthOf(uint8x),
+        f64 metadata @calculatedFrom(""`tick`"") `tab	here`,
+    },
 }
-packet
-    Reject { } 
-packet
-Fill 
+
+packet msg_type {
+    repeat zchar[255] A,
+    int64 f32a,// " ++ [128512]%N ++ runes_of_ascii " emoji
+    Pad @lengthOf(falsey),
+    match falsey as x_y_z {
+        7 : len,
+    },
+    string uint8x `a\`,
+    string rootA @lengthOf(int),
+}
+
+root packet pack {
+    crc i64_,
+}")).
+Eval vm_compute in ("<<<M1595>>>" ++ check (runes_of_ascii "// top
+packet MDSnapshotZZ {
+    // c2
+    u8 a,// c5
+}
+
+packet OrderACK {
+    // c9
+    u16 b,
+}
+
+// c13
+packet HTTPServerInfo {
+    // c16a
+    // c16b
+    string s,
+}// c20
+
+root packet FIXMsg {
+    // c24a
+    // c24b
+    u8 KType,// c27
+    MDSnapshotZZ,
+    repeat OrderACK,// c32a
+    // c32b
+    match KType as Body {
+        // c37a
+        // c37b
+        1 : HTTPServerInfo,
+        2 : OrderACK,
+        // c45
+    },
+    // c47
+}// c48")).
+Eval vm_compute in ("<<<M207>>>" ++ check (runes_of_ascii "MetaData
+T { Foo  lengthOf , string
+    //x
+    packetx
+    `// not a comment` , zchar[
+    //	t
+    0] metadata
+//x
+// `tick` ""quote"" 'q'
+`crlf
+line` ,
+x string_
+`line1
+line2` , } packet repeatCount {	char[ // `tick` ""quote"" 'q'
+255 ]
+A @calculatedFrom(""a\\"" )
+,float32
+    BodyLength @lengthOf(	_x )
+// c
+//
+`doc` , char[] trueish
+    // " ++ [128512]%N ++ runes_of_ascii " emoji
+    @calculatedFrom( ""packet"")
+    ,}
+")).
+Eval vm_compute in ("<<<M1569>>>" ++ check (runes_of_ascii "options
+    { FixedStringPadFromLeft
+	= true ;
+FixedStringPadChar
+	=
+' ';
+}packet	Reject
+{}  packet
+    Fill
 {
     repeat
-    i16
-Tail
+i16 Tail
 ,
-} 
-root 
-packet Trade{
-float64
-Ref,
-Fill
-,  u8	Note,
-	u16	count
-
-@lengthOf(
-    Body),
-	match Note
-
-    as Body
-{ 
-[
-    98 ,	101 ]
-:Fill
-
-    , 34 :  Reject
-
-    ,  }, u32
-
-x  @calculatedFrom(""CRC32""  ), }
-")).
-Eval vm_compute in ("<<<M199>>>" ++ check (runes_of_ascii "
-root packet
-    tag { f64
-len ,
-char[
-    4294967296 ] A@calculatedFrom( """"  )`it's`, @tag( 65535
-    )
-match charz// a // b
-as tag	{
-    [ ""// no comment"" , """ ++ [128512]%N ++ runes_of_ascii """ ]:
-zchar	,
-    ""\n"":falsey  , },} packet float {f32a { repeat  packetx{
-    //x
-    char[ 255 ] int `it's`  ,} , uint32 x_y_z @lengthOf( pack ) // " ++ [27880; 37322]%N ++ runes_of_ascii "
-,}, } // `tick` ""quote"" 'q'")).
-Eval vm_compute in ("<<<M921>>>" ++ check (runes_of_ascii "options//x
-{ } // @lengthOf(
-root packet trueish {f32
-Logon @calculatedFrom( ""`tick`"" ) `
-` ,zchar[  0123456789 ]As @calculatedFrom( ""a	b"" ) ,
-chars
-    , char[] u128@lengthOf(
-a1)
-    `
-`// a // b
-,
-    @tag( 255 )
-repeat asx
-    ,
-} MetaData
-    lengthOf //
-{_x tag , float32 zchar , } options {As	= i64 ;} MetaData len {}
-")).
-Eval vm_compute in ("<<<M1936>>>" ++ check (runes_of_ascii "MetaData
-    u { }  options {
-// c
-// @lengthOf(
-float = int8 ;rootA =false ; As =	int16 int16 // `tick` ""quote"" 'q'
-repeatCount
-    // trailing space 
-    =
-    int16
-; u8x =
-    //	t
-    '\x00' ; } options	{
-    repeatCount
-= 0
-u128
-    //
-    = false ; i64_
-// trailing space 
-// `tick` ""quote"" 'q'
-= '0' ; //	t
-}
-")).
-Eval vm_compute in ("<<<M1861>>>" ++ check (runes_of_ascii "MetaData
-    u u { }  options {
-// c
-// @lengthOf(
-float = int8 ;rootA =false ; As =	int16 // `tick` ""quote"" 'q'
-repeatCount
-    // trailing space 
-    =
-    int16
-; u8x =
-    //	t
-    '\x00' ; } options	{
-    repeatCount
-= 0
-u128
-    //
-    = false ; i64_
-// trailing space 
-// `tick` ""quote"" 'q'
-= '0' ; //	t
-}
-")).
-Eval vm_compute in ("<<<M2073>>>" ++ check (runes_of_ascii "MetaData
-    u { }  options {
-// c
-// @lengthOf(
-float = int8 ;rootA =false ; As =	int16 // `tick` ""quote"" 'q'
-repeatCount
-    // trailing space 
-    =
-    int16
-; u8x =
-    //	t
-    '\x00' ; } options	{
-    repeatCount
-= 0
-caf" ++ [233]%N ++ runes_of_ascii "_1
-    //
-    = false ; i64_
-// trailing space 
-// `tick` ""quote"" 'q'
-= '0' ; //	t
-}
-")).
-Eval vm_compute in ("<<<M1927>>>" ++ check (runes_of_ascii "MetaData
-    u { }  options {
-// c
-// @lengthOf(
-float = int8 ;rootA =false ; = As	int16 // `tick` ""quote"" 'q'
-repeatCount
-    // trailing space 
-    =
-    int16
-; u8x =
-    //	t
-    '\x00' ; } options	{
-    repeatCount
-= 0
-u128
-    //
-    = false ; i64_
-// trailing space 
-// `tick` ""quote"" 'q'
-= '0' ; //	t
-}
-")).
-Eval vm_compute in ("<<<M4226>>>" ++ check (runes_of_ascii "packet pack {
-    u8 len,
-    @rightPad()
-    u64 A @calculatedFrom(""\n""),// trailing space 
-    @lengthOf(o)
-    @leftPad()
-    @leftPad()
-    int32 metadata,
-    matchKey,
-}
-
-MetaData matchKey {
-}
-
-packet rootA {
-}
-
-options {
-    A = zchar[65535]
-    float = 3
-    roots = 7
-    Pad = 10;
-    trueish = false;
-}")).
-Eval vm_compute in ("<<<M3780>>>" ++ check (runes_of_ascii "// " ++ [128512]%N ++ runes_of_ascii " emoji
-packet u {
-    int `two words`,
-}
-
-packet Packet {
-    repeat zchar Foo,
-}
-
-packet f32a {
-    uint32 Packet `
-        `,
-    @lengthOf(msg_type)
-    @calculatedFrom(""it's"")
-    repeat repeatCount {
-        repeat zchar[255] u8x,
-        repeat MetaDataX `" ++ [28040; 24687; 31867; 22411]%N ++ runes_of_ascii "`,
-        int64 Pad `tab	here`,
-    },
-}")).
-Eval vm_compute in ("<<<M1856>>>" ++ check (runes_of_ascii "
-    u { }  options {
-// c
-// @lengthOf(
-float = int8 ;rootA =false ; As =	int16 // `tick` ""quote"" 'q'
-repeatCount
-    // trailing space 
-    =
-    int16
-; u8x =
-    //	t
-    '\x00' ; } options	{
-    repeatCount
-= 0
-u128
-    //
-    = false ; i64_
-// trailing space 
-// `tick` ""quote"" 'q'
-= '0' ; //	t
-}
-")).
-Eval vm_compute in ("<<<M639>>>" ++ check (runes_of_ascii "
-packet
-calculatedFrom {@lengthOf( Foo	) //
-@calculatedFrom( ""a\""b""
-)lengthOf Foo
-, int8 u8x, @calculatedFrom( """ ++ [28040; 24687]%N ++ runes_of_ascii """ )
-repeat // a // b
-options1 o `" ++ [28040; 24687; 31867; 22411]%N ++ runes_of_ascii "` ,
-    MetaDataX @lengthOf( Logon
-    // trailing space 
-    )
-, } options { crc =
-7 u8x =0 T = ""{,}""; metadata =
-    zchar[ 00
-    ]
-;} 	 ")).
-Eval vm_compute in ("<<<M4337>>>" ++ check (runes_of_ascii "  root
-
-    packet  i8i8
-    // `tick` ""quote"" 'q'
-    // packet A { u8 x, }
-{string 
-calculatedFrom  @calculatedFrom(""a	b""  //x
-)
-, @calculatedFrom(""abc""
-) // " ++ [27880; 37322]%N ++ runes_of_ascii "
-		int32
-float// " ++ [128512]%N ++ runes_of_ascii " emoji
-  ,  
-      //x
-    // a // b
-@calculatedFrom( ""a\""b"" 
-)
-    repeat u64
-    BodyLength  ,
-}")).
-Eval vm_compute in ("<<<M217>>>" ++ check (runes_of_ascii "options{ // " ++ [128512]%N ++ runes_of_ascii " emoji
-x =i8 BodyLength	=	'\x00'	;
-options1 // a // b
-=// c
-zchar[
-    42] ; msg_type = ""a	b""  x_y_z =// a // b
-int64
-; } //x
-options
-{ pack =
-""a\\""matchKey  =
-    true Packet =""abc"" //	t
-falsey =
-'\x00'
-; }  root packet charz { body
-    `doc` , } // c")).
-Eval vm_compute in ("<<<M3628>>>" ++ check (runes_of_ascii "  options{
-    StringPrefixLenType =
-u16
-; FixedStringPadChar
-=  ' ';
-
-} packet
-Party
-	{  }
-
-    packet
-	Quote
-
-    { repeat
-Party ,
-	repeat
-char[
-
-2 
-]  f1
-	,
-	}
-packet  Logon
-{  }root
-packet Cancel  { uint16 
-x
-,
-	zchar[
-
-    6
-    ]
-
-f1
-	,
-
     }
-")).
-Eval vm_compute in ("<<<M478>>>" ++ check (runes_of_ascii "
-packet	packetx{
-    @leftPad
-    /// triple
-    (
-'0' )	@lengthOf(  T ) @calculatedFrom( ""\" ++ [233]%N ++ runes_of_ascii """ )
-match i64_
-    as tag// " ++ [128512]%N ++ runes_of_ascii " emoji
+	root packet 
+Trade
 {
-    ""abc""// packet A { u8 x, }
-:Header , [7
-] :
-chars,	""a	b"" :	f32a , ""\" ++ [233]%N ++ runes_of_ascii """ :f32a ,	""CRC32"" : zchar , ""abc""  : Z9_, } , }
-")).
-Eval vm_compute in ("<<<M1560>>>" ++ check (runes_of_ascii "packet
-//	t
-// trailing space 
-_x {
-// packet A { u8 x, }
-// c
-char[
-3
-    ] u8x @lengthOf(
-u8x ) , @calculatedFrom(""" ++ [128512]%N ++ runes_of_ascii """ // @lengthOf(
-)
-false	Foo
-@lengthOf(	string_
-    )`doc`	, repeat	i64 metadata , @lengthOf( string_
-) i8 // c
-u  `line1
-line2`	,
-}
-")).
-Eval vm_compute in ("<<<M811>>>" ++ check (runes_of_ascii "packet trueish{ body Logon , }packet  len
-{ @leftPad ( '0' // packet A { u8 x, }
-) @rightPad ()repeat calculatedFrom`u8 x,`
-    ,repeatCount {repeat
-    Logon tag
-    `u8 x,`
-,
-} // " ++ [128512]%N ++ runes_of_ascii " emoji
-, repeat  char[ 65535	] Header`two words` , float32 Pad, }
-")).
-Eval vm_compute in ("<<<M1624>>>" ++ check (runes_of_ascii "packet
-//	t
-// trailing space 
-_x {
-// packet A { u8 x, }
-// c
-char[
-3
-    ] u8x @lengthOf(
-u8x ) , @calculatedFrom(""" ++ [128512]%N ++ runes_of_ascii """ // @lengthOf(
-)
-i16	Foo
-@lengthOf(	string_
-    )`doc`	, repeat	i64 metadata , @lengthOf( string_
-i8 ) // c
-u  `line1
-line2`	,
-}
-")).
-Eval vm_compute in ("<<<M3673>>>" ++ check (runes_of_ascii "
+	float64	Ref , Fill ,
+	u8 Note	,u16 count	@lengthOf(
+Body) ,	match 
+Note as
+Body{
+[
+98	, 101 ]: 
+Fill  ,	34 :
 
-  options
-    // @lengthOf(
+Reject
 
-	{} root	packet 
+,  }
 
-    // c
+,u32
+    x
 
-	falsey
-
-{}  MetaData _x
-    {  }
-    packet
-	    // packet A { u8 x, }
-// trailing space 
-    o 
-    // " ++ [128512]%N ++ runes_of_ascii " emoji
-  {
-falsey  ,	@tag(  3	)// `tick` ""quote"" 'q'
-  uint8
-
-    Foo
-,
-
-    }
-")).
-Eval vm_compute in ("<<<M2024>>>" ++ check (runes_of_ascii "MetaData
-    u { }  options {
-// c
-// @lengthOf(
-float = int8 ;rootA =false ; As =	int16 // `tick` ""quote"" 'q'
-repeatCount
-    // trailing space 
-    =
-    int16
-; u8x =
-    //	t
-    '\x00' ; } options	{
-    repeatCount
-= 0
-u128
-    //
-    =")).
-Eval vm_compute in ("<<<M686>>>" ++ check (runes_of_ascii "packet
-// a // b
-// packet A { u8 x, }
-matchKey { lengthOf	{ charz int
-// " ++ [128512]%N ++ runes_of_ascii " emoji
-// packet A { u8 x, }
-,
-match
-uint8x as A
-    // a // b
-    {
-    65535: rootA
-, } ,	repeat char[]
-    // a // b
-    T, }
-    , repeat charz  roots,	}
-")).
-Eval vm_compute in ("<<<M4243>>>" ++ check (runes_of_ascii "options {
-    trueish = f32;
-    i8i8 = false
-    BodyLength = float64
-    stringy = string;
-    Z9_ = '\x00'
-}
-
-MetaData falsey {
-    pack rootA,
-    char[7] x_y_z `" ++ [233]%N ++ runes_of_ascii "`,
-    uint32 string_,
-    float64 lengthOf,
-    int32 u,
-}")).
-Eval vm_compute in ("<<<M4071>>>" ++ check (runes_of_ascii "// top
-packet B {
-    // c2
-    u8 a,
-}// c6
-
-root packet P {
-    // c10
-    u8 K,// c13a
-    // c13b
-    u64 L @lengthOf(Body),
-    match K as Body {
-        1 : B,
-        // c28a
-        // c28b
-    },// c30
-}
-// c31")).
-Eval vm_compute in ("<<<M4532>>>" ++ check (runes_of_ascii "  packet u128{  @calculatedFrom(""a	b""	)
-	repeat
-uint8x
-u128`line1
-line2`
-    ,
-} packet
-string_ { @calculatedFrom(
-    // `tick` ""quote"" 'q'
-  // packet A { u8 x, }
-
-""" ++ [128512]%N ++ runes_of_ascii """
-)uint8 
-Pad	@lengthOf( 
-o)
-	`{ , }` ,
-} ")).
-Eval vm_compute in ("<<<M1850>>>" ++ check (runes_of_ascii "options { trueish = ""`tick`"" ; string_= """ ++ [233]%N ++ runes_of_ascii "t" ++ [233]%N ++ runes_of_ascii """
-    // c
-    } root
-    packet body { stringy @calculatedFrom(
-""a	b"" ) `line1
-line2` , }
-packet Logon {
-    @leftPa'\x01'd(
-    ' ' ) //	t
-u16 string_ `u8 x,` ,
-}
-")).
-Eval vm_compute in ("<<<M1774>>>" ++ check (runes_of_ascii "options { trueish = ""`tick`"" ; string_= """ ++ [233]%N ++ runes_of_ascii "t" ++ [233]%N ++ runes_of_ascii """
-    // c
-    } root
-    packet body { stringy @calculatedFrom(
-""a	b"" ) `line1
-line2` , i16
-packet Logon {
-    @leftPad(
-    ' ' ) //	t
-u16 string_ `u8 x,` ,
-}
-")).
-Eval vm_compute in ("<<<M1679>>>" ++ check (runes_of_ascii "options u trueish = ""`tick`"" ; string_= """ ++ [233]%N ++ runes_of_ascii "t" ++ [233]%N ++ runes_of_ascii """
-    // c
-    } root
-    packet body { stringy @calculatedFrom(
-""a	b"" ) `line1
-line2` , }
-packet Logon {
-    @leftPad(
-    ' ' ) //	t
-u16 string_ `u8 x,` ,
-}
-")).
-Eval vm_compute in ("<<<M1814>>>" ++ check (runes_of_ascii "options { trueish = ""`tick`"" ; string_= """ ++ [233]%N ++ runes_of_ascii "t" ++ [233]%N ++ runes_of_ascii """
-    // c
-    } root
-    packet body { stringy @calculatedFrom(
-""a	b"" ) `line1
-line2` , }
-packet Logon {
-    @leftPad(
-    ' ' ) //	t
-i64 string_ `u8 x,` ,
-}
-")).
-Eval vm_compute in ("<<<M1834>>>" ++ check (runes_of_ascii "options { trueish = ""`tick`"" ; string_= """ ++ [233]%N ++ runes_of_ascii "t" ++ [233]%N ++ runes_of_ascii """
-    // c
-    } root
-    packet body { stringy @calculatedFrom(
-""a	b"" ) `line1
-line2` , }
-packet Logon {
-    @leftPad(
-    ' ' ) //	t
-u16 string_ `u8 x,` ,")).
-Eval vm_compute in ("<<<M1741>>>" ++ check (runes_of_ascii "options { trueish = ""`tick`"" ; string_= """ ++ [233]%N ++ runes_of_ascii "t" ++ [233]%N ++ runes_of_ascii """
-    // c
-    } root
-    packet body {  @calculatedFrom(
-""a	b"" ) `line1
-line2` , }
-packet Logon {
-    @leftPad(
-    ' ' ) //	t
-u16 string_ `u8 x,` ,
-}
-")).
-Eval vm_compute in ("<<<M1764>>>" ++ check (runes_of_ascii "options { trueish = ""`tick`"" ; string_= """ ++ [233]%N ++ runes_of_ascii "t" ++ [233]%N ++ runes_of_ascii """
-    // c
-    } root
-    packet body { stringy @calculatedFrom(
-""a	b"" ) , , }
-packet Logon {
-    @leftPad(
-    ' ' ) //	t
-u16 string_ `u8 x,` ,
-}
-")).
-Eval vm_compute in ("<<<M1111>>>" ++ check (runes_of_ascii "packet
-Pad { @leftPad
-() @lengthOf(float
-) @calculatedFrom( ""// no comment"" )
-    repeat calculatedFrom{ uint16
-i64_ @lengthOf( msg_type ) , BodyLength	trueish,_x Logon ,
-} ,
-} //	t")).
-Eval vm_compute in ("<<<M441>>>" ++ check (runes_of_ascii "
-options { options1 =
-1// packet A { u8 x, }
-; } options
-{ A =00}MetaData
-repeatCount {
-char[]
-u8x	, char[] u128
-, body roots
-`" ++ [28040; 24687; 31867; 22411]%N ++ runes_of_ascii "`, msg_type As  ,
-} MetaData
-string_ {
-}
-")).
-Eval vm_compute in ("<<<M4207>>>" ++ check (runes_of_ascii "MetaData T {
-    // c
-    //	t
-    trueish i64_ `" ++ [233]%N ++ runes_of_ascii "`,
-    f64 a1 `doc`,
-    int A,
-    u32 crc `" ++ [28040; 24687; 31867; 22411]%N ++ runes_of_ascii "`,
-    charz _x,
-    // trailing space 
-    char[255] msg_type `" ++ [28040; 24687; 31867; 22411]%N ++ runes_of_ascii "`,
-}")).
-Eval vm_compute in ("<<<M4528>>>" ++ check (runes_of_ascii "packet A {
-    match k as n {
-        [
-            1, ""bb"", 007, ""d"", 5,
-            ""f"", 7, ""h"", 9, ""j"",
-            11, ""l""
-        ] : B,
-        2 : C,
-    },
-}")).
-Eval vm_compute in ("<<<M2383>>>" ++ check (runes_of_ascii "// c
-packet x { @lengthOf( metadata ) repeat repeat lengthOf
-,a1{
-trueish	,// c
-repeat//	t
-MetaDataX , } , zchar[
-    42	] rootA // `tick` ""quote"" 'q'
-,
-    }
-")).
-Eval vm_compute in ("<<<M1174>>>" ++ check (runes_of_ascii "packet  charz { // packet A { u8 x, }
-repeat len packetx  , }
-options{string_=false
-    ;crc=007
-; _x = ""a	b""
-// " ++ [128512]%N ++ runes_of_ascii " emoji
-// trailing space 
-;Z9_ = int16 }
-")).
-Eval vm_compute in ("<<<M2389>>>" ++ check (runes_of_ascii "// c
-packet x { @lengthOf( metadata ) repeat lengthOf
-,a1{
-trueish	,// c
-repeat//	t
-MetaDataX , } , zchar[
-    42	] ] rootA // `tick` ""quote"" 'q'
-,
-    }
-")).
-Eval vm_compute in ("<<<M2120>>>" ++ check (runes_of_ascii "options{
-_x
-= true
-} options
-{ o	= = /// triple
-false
-    ; chars
-= ""\n"" } root packet	Pad
-/// triple
-// packet A { u8 x, }
-{	chars
-    // a // b
-    ,}")).
-Eval vm_compute in ("<<<M2182>>>" ++ check (runes_of_ascii "options{
-_x
-= true
-} options
-{ o	= /// triple
-false
-    ; chars
-= ""\n"" } root packet	Pad
-/// triple
-// packet A { u8 x, }
-{	chars
-    // a // b
-    i8}")).
-Eval vm_compute in ("<<<M2106>>>" ++ check (runes_of_ascii "options{
-_x
-= true
-} {
-options o	= /// triple
-false
-    ; chars
-= ""\n"" } root packet	Pad
-/// triple
-// packet A { u8 x, }
-{	chars
-    // a // b
-    ,}")).
-Eval vm_compute in ("<<<M2099>>>" ++ check (runes_of_ascii "options{
-_x
-= true
- options
-{ o	= /// triple
-false
-    ; chars
-= ""\n"" } root packet	Pad
-/// triple
-// packet A { u8 x, }
-{	chars
-    // a // b
-    ,}")).
-Eval vm_compute in ("<<<M2391>>>" ++ check (runes_of_ascii "// c
-packet x { @lengthOf( metadata ) repeat lengthOf
-,a1{
-trueish	,// c
-repeat//	t
-" ++ [252]%N ++ runes_of_ascii "ber , } , zchar[
-    42	] rootA // `tick` ""quote"" 'q'
-,
-    }
-")).
-Eval vm_compute in ("<<<M1069>>>" ++ check (runes_of_ascii "MetaData  uint8x{  char[
-0
-    ]As	,	}
-MetaData	matchKey
-    // c
-    {
-    //x
-    Logon rootA//
-`{ , }`
-    ,  }packet Packet { string
-As
-,
-}
-
-")).
-Eval vm_compute in ("<<<M1314>>>" ++ check (runes_of_ascii "MetaData uint8x {
-    } packet i8i8{ // a // b
-repeat uint64 roots , string
-    falsey
-,// trailing space 
-} options  {
-repeatCount = 007 ; }
-")).
-Eval vm_compute in ("<<<M81>>>" ++ check (runes_of_ascii "
-root packet // `tick` ""quote"" 'q'
-rootA { @rightPad (
-) @leftPad(	) @lengthOf(  MetaDataX  )float// c
-u128`a\` , // `tick` ""quote"" 'q'
-}
-")).
-Eval vm_compute in ("<<<M986>>>" ++ check (runes_of_ascii "//x
-options { Header
-= char[];} MetaData
-    Z9_ { // @lengthOf(
-x_y_z Header `crlf
-line` ,
-// " ++ [27880; 37322]%N ++ runes_of_ascii "
-// " ++ [27880; 37322]%N ++ runes_of_ascii "
-string pack ,} options { }
-")).
-Eval vm_compute in ("<<<M3801>>>" ++ check (runes_of_ascii "root packet leftPad {
-    int64 BodyLength `// not a comment`,
-    @tag(0)
-    @leftPad()
-    @tag(255)
-    repeat Header,
-}// c")).
-Eval vm_compute in ("<<<M4307>>>" ++ check (runes_of_ascii "packet
-A  {  u16
-	len  @lengthOf( body	)
-    `
-x` ,
-
-u32 
-crc	@calculatedFrom(	""CRC32"" 
-)
-`
-x`
-
-    , string
-    body , }")).
-Eval vm_compute in ("<<<M3310>>>" ++ check (runes_of_ascii "// c
-root packet matchKey { zchar[ 3 ] pack @calculatedFrom( ""a	b"" ) `doc` , } options { } MetaData A { int8 msg_type , }")).
-Eval vm_compute in ("<<<M3343>>>" ++ check (runes_of_ascii "root packet matchKey { zchar[ 3 ] pack @calculatedFrom( ""a	b"" ) `doc` , } options {
-// c
-} MetaData A { int8 msg_type , }")).
-Eval vm_compute in ("<<<M1477>>>" ++ check (runes_of_ascii "
-packet
-    falsey { Header@calculatedFrom(""packet""  ) , char[
-    0123456789 ] packetx
-    " ++ [8232]%N ++ runes_of_ascii " , } // `tick` ""quote"" 'q'")).
-Eval vm_compute in ("<<<M1405>>>" ++ check (runes_of_ascii "
-packet
-    uint32 { Header@calculatedFrom(""packet""  ) , char[
-    0123456789 ] packetx
-    , } // `tick` ""quote"" 'q'")).
-Eval vm_compute in ("<<<M2361>>>" ++ check (runes_of_ascii "// c
-packet x { @lengthOf( metadata ) repeat lengthOf
-,a1{
-trueish	,// c
-repeat//	t
-MetaDataX , } , zchar[
-    42	]")).
-Eval vm_compute in ("<<<M2977>>>" ++ check (runes_of_ascii "packet A {
-  match k as n {
-    [""a"", ""bb"", ""c c"", ""d"", ""e"", ""f"", ""g"", ""h"", ""i"", ""j"", ""k""] : B,
-    2 : C
-  },
-}")).
-Eval vm_compute in ("<<<M3671>>>" ++ check (runes_of_ascii "packet	chars	{}	// c
-    packet
-
-    MetaDataX	{@tag(
-    42
+    @calculatedFrom(""CRC32""
     )
-	i16 
-string_
-,
-repeat
-x`say ""hi""`	,}
+, }
 
 ")).
-Eval vm_compute in ("<<<M2986>>>" ++ check (runes_of_ascii "packet A {
-  match k as n {
-    [""a"", ""bb"", 007, ""d"", ""e"", 66, ""g"", ""h"", 9, ""j"", ""k""] : B
-    2 : C
-  },
-}")).
-Eval vm_compute in ("<<<M2982>>>" ++ check (runes_of_ascii "packet A {
-  match k as n {
-    [""a"", 22, ""c c"", 4, ""e"", 66, ""g"", 8, ""i"", 10, ""k""] : B
-    2 : C
-  },
-}")).
-Eval vm_compute in ("<<<M4018>>>" ++ check (runes_of_ascii "// packet A { u8 x, }
-options {
-    lengthOf = 255;/// triple
+Eval vm_compute in ("<<<M1584>>>" ++ check (runes_of_ascii "
+
+  options	{  LittleEndian= true
+
+    ; }
+
+    packet Sub
+
+    {	u8 
+a,@calculatedFrom(
+""CRC16""
+    )u64
+SubSum
+    ,
+	}
+	root
+
+    packet Frame  {
+	u16 MsgType,	u16
+BodyLen
+	@lengthOf( Body
+
+) 
+,Sub Body
+    ,
+string
+note	,
+
+    @calculatedFrom(
+""CRC16"" )u64 
+Checksum
+
+,	u8
+    tail ,	}
+")).
+Eval vm_compute in ("<<<M554>>>" ++ check (runes_of_ascii "root packet tag { }  packet MetaDataX{char[007	]
+// c
+/// triple
+asx  @calculatedFrom( ""a\""b""
+) `say ""hi""` `say ""hi""`// " ++ [27880; 37322]%N ++ runes_of_ascii "
+,  @tag(4294967296 )
+    char[1//x
+] packetx @calculatedFrom(""a\""b""
+    ) ,
+// " ++ [128512]%N ++ runes_of_ascii " emoji
+// a // b
+@calculatedFrom(""" ++ [233]%N ++ runes_of_ascii "t" ++ [233]%N ++ runes_of_ascii """  ) repeat pack // " ++ [27880; 37322]%N ++ runes_of_ascii "
+,
+    } // c")).
+Eval vm_compute in ("<<<M551>>>" ++ check (runes_of_ascii "root packet tag { }  packet MetaDataX{char[007	]
+// c
+/// triple
+asx  @calculatedFrom( ""a\""b""
+false `say ""hi""`// " ++ [27880; 37322]%N ++ runes_of_ascii "
+,  @tag(4294967296 )
+    char[1//x
+] packetx @calculatedFrom(""a\""b""
+    ) ,
+// " ++ [128512]%N ++ runes_of_ascii " emoji
+// a // b
+@calculatedFrom(""" ++ [233]%N ++ runes_of_ascii "t" ++ [233]%N ++ runes_of_ascii """  ) repeat pack // " ++ [27880; 37322]%N ++ runes_of_ascii "
+,
+    } // c")).
+Eval vm_compute in ("<<<M39>>>" ++ check (runes_of_ascii "packet As
+{//
+@lengthOf(trueish ) uint8
+    repeatCount	,
+} options// c
+{As =	""1""matchKey
+=""x y"" ;
+Packet = ' '  }MetaData repeatCount { string BodyLength `{ , }` , char[
+    0123456789 ]//	t
+trueish
+    ,
+uint16 A, u32 falsey `two words`
+, } packet
+float{// c
+}
+
+")).
+Eval vm_compute in ("<<<M535>>>" ++ check (runes_of_ascii "root packet tag { }  packet MetaDataX{char[007	]
+// c
+/// triple
+@calculatedFrom(  asx ""a\""b""
+) `say ""hi""`// " ++ [27880; 37322]%N ++ runes_of_ascii "
+,  @tag(4294967296 )
+    char[1//x
+] packetx @calculatedFrom(""a\""b""
+    ) ,
+// " ++ [128512]%N ++ runes_of_ascii " emoji
+// a // b
+@calculatedFrom(""" ++ [233]%N ++ runes_of_ascii "t" ++ [233]%N ++ runes_of_ascii """  ) repeat pack // " ++ [27880; 37322]%N ++ runes_of_ascii "
+,
+    } // c")).
+Eval vm_compute in ("<<<M588>>>" ++ check (runes_of_ascii "root packet tag { }  packet MetaDataX{char[007	]
+// c
+/// triple
+asx  @calculatedFrom( ""a\""b""
+) `say ""hi""`// " ++ [27880; 37322]%N ++ runes_of_ascii "
+,  @tag(4294967296 )
+    char[1//x
+ packetx @calculatedFrom(""a\""b""
+    ) ,
+// " ++ [128512]%N ++ runes_of_ascii " emoji
+// a // b
+@calculatedFrom(""" ++ [233]%N ++ runes_of_ascii "t" ++ [233]%N ++ runes_of_ascii """  ) repeat pack // " ++ [27880; 37322]%N ++ runes_of_ascii "
+,
+    } // c")).
+Eval vm_compute in ("<<<M578>>>" ++ check (runes_of_ascii "root packet tag { }  packet MetaDataX{char[007	]
+// c
+/// triple
+asx  @calculatedFrom( ""a\""b""
+) `say ""hi""`// " ++ [27880; 37322]%N ++ runes_of_ascii "
+,  @tag(4294967296 )
+    1//x
+] packetx @calculatedFrom(""a\""b""
+    ) ,
+// " ++ [128512]%N ++ runes_of_ascii " emoji
+// a // b
+@calculatedFrom(""" ++ [233]%N ++ runes_of_ascii "t" ++ [233]%N ++ runes_of_ascii """  ) repeat pack // " ++ [27880; 37322]%N ++ runes_of_ascii "
+,
+    } // c")).
+Eval vm_compute in ("<<<M1761>>>" ++ check (runes_of_ascii "root packet tag {
 }
 
 packet MetaDataX {
-    int32 body,
-}")).
-Eval vm_compute in ("<<<M642>>>" ++ check (runes_of_ascii "packet
-//	t
-//x
-As
-{ matchKey@lengthOf(string_)
-    , matchKey `say ""hi""`// packet A { u8 x, }
-,}")).
-Eval vm_compute in ("<<<M2989>>>" ++ check (runes_of_ascii "packet A {
-  match k as n {
-    [1, 22, 007, 4, 5, 66, 7, 8, 9, 10, 11, 12] : B
-    2 : C
-  },
-}")).
-Eval vm_compute in ("<<<M1465>>>" ++ check (runes_of_ascii "
-packet
-    falsey { Header@calculatedFrom(""packet""  ) , char[
-    0123456789 ] packetx
-    ,")).
-Eval vm_compute in ("<<<M2742>>>" ++ check (runes_of_ascii "zchar[ [ """" char[] match i32 @lengthOf( uint16 char[] @lengthOf( i64 @lengthOf( string int8")).
-Eval vm_compute in ("<<<M654>>>" ++ check (runes_of_ascii "options {Pad = ""a	b""
-    ;
-//
-// `tick` ""quote"" 'q'
-u
-= '\x00'
-;lengthOf
-= ' '
-    ; }
+    char[007] asx @calculatedFrom(""a\""b"") `say ""hi""`,
+    @tag(4294967296)
+    char[1] packetx @calculatedFrom(""a\""b""),
+    // " ++ [128512]%N ++ runes_of_ascii " emoji
+    // a // b
+    @calculatedFrom(""" ++ [233]%N ++ runes_of_ascii "t" ++ [233]%N ++ runes_of_ascii """)
+    repeat pack pack,
+}// c")).
+Eval vm_compute in ("<<<M237>>>" ++ check (runes_of_ascii "packet Foo //	t
+{ match
+    // a // b
+    i64_ //x
+as
+x_y_z {65535:  BodyLength
+,
+[3, ""CRC32"" ]
+:u
+, 255:
+T ,[ ""x y""]	:leftPad ,0123456789: As ,
+    } ,
+    zchar[	1
+    ]int
+, } packet
+float
+    { uint16
+Packet	,}")).
+Eval vm_compute in ("<<<M1445>>>" ++ check (runes_of_ascii "// top
+packet // c0
+Inner
+    // c1
+{ u8 a , // c5
+} root packet // c8
+P
+    // c9
+{ // c10
+Inner
+    // c11
+ref_obj // c12
+, // c13a
+  // c13b
+u8 // c14
+x
+    // c15
+, // c16a
+  // c16b
+} // c17
 ")).
-Eval vm_compute in ("<<<M3291>>>" ++ check (runes_of_ascii "MetaData float { float64 charz `
-` , } root packet chars { // c
-@rightPad ( '0' ) Foo , }")).
-Eval vm_compute in ("<<<M3502>>>" ++ check (runes_of_ascii "packet chars { } packet MetaDataX { @tag( 42
-// c
-) i16 string_ , repeat x `say ""hi""` , }")).
-Eval vm_compute in ("<<<M2284>>>" ++ check (runes_of_ascii "options
-{ } options { BodyLength= u16 Header= f64 ; u128 =
-    true
-    i16 } // a // b")).
-Eval vm_compute in ("<<<M3170>>>" ++ check (runes_of_ascii "packet A { match k as n // a
- { // b
- 1 // c
- : // d
- B // e
- , // f
- } // g
- , // h
- }")).
-Eval vm_compute in ("<<<M2913>>>" ++ check (runes_of_ascii "packet A {
-  match k as n {
-    [""a"", ""bb"", ""c c"", ""d"", ""e"", ""f""] : B
-    2 : C
-  },
+Eval vm_compute in ("<<<M1755>>>" ++ check (runes_of_ascii "packet A {
+    match k as n {
+        ""x\
+        y"" : B,
+        [""x\
+        y"", 1] : C,
+        [
+            1, 2, 3, 4, 5,
+            ""x\
+            y""
+        ] : D,
+    },
 }")).
-Eval vm_compute in ("<<<M3242>>>" ++ check (runes_of_ascii "packet metadata { Logon { A `" ++ [28040; 24687; 31867; 22411]%N ++ runes_of_ascii "` , tag o , } , zchar len
-// c
-`// not a comment` , }")).
-Eval vm_compute in ("<<<M3433>>>" ++ check (runes_of_ascii "packet o { // c
-repeat Logon uint8x , } options { asx = zchar[ 3 ] stringy = '\x00' }")).
-Eval vm_compute in ("<<<M3530>>>" ++ check (runes_of_ascii "options {
-    LittleEndian = true;
+Eval vm_compute in ("<<<M1488>>>" ++ check (runes_of_ascii "packet A {
+    u8 a,
+}
+packet B {
+    u16 b,
 }
 root packet P {
-    repeat char cs,
-    u8 x,
+    u8 K1,
+    u8 K2,
+    match K1 as M1 {
+        1 : A,
+    },
+    match K2 as M2 {
+        1 : B,
+    },
 }
 ")).
-Eval vm_compute in ("<<<M3050>>>" ++ check (runes_of_ascii "packet A {
-    u32 crc @calculatedFrom(""x\
-y""),
-    @calculatedFrom(""x\
-y"") u8 y,
+Eval vm_compute in ("<<<M471>>>" ++ check (runes_of_ascii "packet
+    // `tick` ""quote""" ++ [233]%N ++ runes_of_ascii " 'q'
+    crc
+// packet A { u8 x, }
+//	t
+{
+u32 a1 ,
+    // trailing space 
+    roots
+charz //
+`two words`,	}
+    MetaData int {
+} /// triple")).
+Eval vm_compute in ("<<<M693>>>" ++ check (runes_of_ascii "root packet len // trailing space 
+{
+// " ++ [27880; 37322]%N ++ runes_of_ascii "
+//	t
+char[10
+] metadata	@lengthOf( o ) `crlf
+line`,
+    @rightPad
+( ' '
+string )
+    Header @calculatedFrom( ""a\\""
+    ), }
+")).
+Eval vm_compute in ("<<<M259>>>" ++ check (runes_of_ascii "options { Pad = char[]; u8x
+    // trailing space 
+    =
+    ""packet"";
+o = i64
+; stringy
+=""a\""b""
+packetx
+    // trailing space 
+    = 65535
+} options
+{ chars
+= '0'}")).
+Eval vm_compute in ("<<<M674>>>" ++ check (runes_of_ascii "root packet len // trailing space 
+{
+// " ++ [27880; 37322]%N ++ runes_of_ascii "
+//	t
+char[10
+] metadata	@lengthOf( o ) `crlf
+line`,
+    ;
+( ' '
+) string
+    Header @calculatedFrom( ""a\\""
+    ), }
+")).
+Eval vm_compute in ("<<<M60>>>" ++ check (runes_of_ascii "MetaData crc // trailing space 
+{}options
+{ metadata = 10 ; u = 65535
+repeatCount
+    = char[ 0123456789 // packet A { u8 x, }
+]  }MetaData i8i8{ }
+")).
+Eval vm_compute in ("<<<M2058>>>" ++ check (runes_of_ascii "packet A {
+    u16 len @lengthOf(body) `a
+        b
+      c`,
+    u32 crc @calculatedFrom(""CRC32"") `a
+        b
+      c`,
+    string body,
 }")).
-Eval vm_compute in ("<<<M3408>>>" ++ check (runes_of_ascii "MetaData body { i64 pack `it's` , } // c
-packet stringy { int16 calculatedFrom , }")).
-Eval vm_compute in ("<<<M4031>>>" ++ check (runes_of_ascii "packet A {
+Eval vm_compute in ("<<<M2095>>>" ++ check (runes_of_ascii "
+packet
+	A{
+match	k  as	n
+
+    { 
+[""a"" ,  22,
+
+""c c"",  4,
+""e"" ,66	, ""g""
+,8 ,	""i""
+	,10	,
+""k"" , 12
+    ] :
+    B
+	2	: C
+    }
+	, 
+}")).
+Eval vm_compute in ("<<<M1942>>>" ++ check (runes_of_ascii "
+packet 
+A
+	{  match
+
+k  as  n{
+[
+    ""a""
+	,
+    ""bb""
+,""c c""
+	,""d""
+,
+
+""e""	, ""f"" 
+,
+
+""g""
+]
+:
+
+B 2
+
+    :C}
+
+    ,}
+
+")).
+Eval vm_compute in ("<<<M1246>>>" ++ check (runes_of_ascii "root packet matchKey { zchar[ 3 ] pack @calculatedFrom( ""a	b"" ) `doc`
+// c
+, } options { } MetaData A { int8 msg_type , }")).
+Eval vm_compute in ("<<<M1949>>>" ++ check (runes_of_ascii "  options
+{LittleEndian
+=
+true ;
+
+    }root
+packet P	{  u16 
+a,
+    u32
+
+    Sum@calculatedFrom( ""CRC32"" ) 
+, }
+")).
+Eval vm_compute in ("<<<M2006>>>" ++ check (runes_of_ascii "packet o
+
+{	repeat
+Logon  uint8x 
+,
+
+    } 
+options	{
+
+    asx 
+=zchar[ 
+3
+
+] // c
+    stringy 
+= '\x00'
+}
+")).
+Eval vm_compute in ("<<<M213>>>" ++ check (runes_of_ascii "root packet repeatCount
+// c
+// " ++ [128512]%N ++ runes_of_ascii " emoji
+{
+msg_type// `tick` ""quote"" 'q'
+{
+float64 lengthOf
+`" ++ [233]%N ++ runes_of_ascii "`,
+}
+    ,  }")).
+Eval vm_compute in ("<<<M1951>>>" ++ check (runes_of_ascii "packet
+
+    A
+{
+    match
+
+k as	n {[
+
+    ""a"" 
+,
+	22
+    ,
+    ""c c""
+	,4
+, ""e""
+
+]
+:B 2
+:C
+
+}  ,
+}
+
+")).
+Eval vm_compute in ("<<<M890>>>" ++ check (runes_of_ascii "packet A {
+  match k as n {
+    [1, ""bb"", 007, ""d"", 5, ""f"", 7, ""h"", 9, ""j"", 11] : B,
+    2 : C
+  },
+}")).
+Eval vm_compute in ("<<<M927>>>" ++ check (runes_of_ascii "packet A {
+    Inner {
+        u8 x `
+`,
+        Deep {
+            u8 y `
+`,
+        },
+    },
+}")).
+Eval vm_compute in ("<<<M886>>>" ++ check (runes_of_ascii "packet A {
+  match k as n {
+    [1, 22, 007, 4, 5, 66, 7, 8, 9, 10, 11] : B,
+    2 : C
+  },
+}")).
+Eval vm_compute in ("<<<M181>>>" ++ check (runes_of_ascii "MetaData a1 { Foo body
+`{ , }`
+    , int32
+int`` ,i32 a1 `" ++ [28040; 24687; 31867; 22411]%N ++ runes_of_ascii "`
+, int8 msg_type `` , }
+
+")).
+Eval vm_compute in ("<<<M1205>>>" ++ check (runes_of_ascii "MetaData float { float64 charz `
+` , } root packet chars { @rightPad
+// c
+( '0' ) Foo , }")).
+Eval vm_compute in ("<<<M1416>>>" ++ check (runes_of_ascii "packet chars { } packet MetaDataX { @tag( 42 ) i16 // c
+string_ , repeat x `say ""hi""` , }")).
+Eval vm_compute in ("<<<M1159>>>" ++ check (runes_of_ascii "packet metadata { Logon { A `" ++ [28040; 24687; 31867; 22411]%N ++ runes_of_ascii "` , tag o , } , zchar len `// not a comment` , }
+// c
+")).
+Eval vm_compute in ("<<<M1146>>>" ++ check (runes_of_ascii "packet metadata { Logon { A `" ++ [28040; 24687; 31867; 22411]%N ++ runes_of_ascii "` , tag o , } // c
+, zchar len `// not a comment` , }")).
+Eval vm_compute in ("<<<M1351>>>" ++ check (runes_of_ascii "packet o { repeat Logon uint8x
+// c
+, } options { asx = zchar[ 3 ] stringy = '\x00' }")).
+Eval vm_compute in ("<<<M856>>>" ++ check (runes_of_ascii "packet A {
+  match k as n {
+    [1, 22, ""c c"", 4, 5, ""f"", 7, 8] : B
+    2 : C
+  },
+}")).
+Eval vm_compute in ("<<<M1312>>>" ++ check (runes_of_ascii "MetaData body { i64
+// c
+pack `it's` , } packet stringy { int16 calculatedFrom , }")).
+Eval vm_compute in ("<<<M1679>>>" ++ check (runes_of_ascii "packet A {
     match k as n {
         [1, ""bb"", 007] : B,
         2 : C,
     },
 }")).
-Eval vm_compute in ("<<<M768>>>" ++ check (runes_of_ascii "// " ++ [27880; 37322]%N ++ runes_of_ascii "
-options
-{ u8x  = zchar[0
-] ; len
-    =
-    ' ';
-    leftPad =false;
-} 	 ")).
-Eval vm_compute in ("<<<M1924>>>" ++ check (runes_of_ascii "MetaData
-    u { }  options {
-// c
-// @lengthOf(
-float = int8 ;rootA =false")).
-Eval vm_compute in ("<<<M2153>>>" ++ check (runes_of_ascii "options{
-_x
-= true
-} options
-{ o	= /// triple
-false
-    ; chars
-= ""\n""")).
-Eval vm_compute in ("<<<M2881>>>" ++ check (runes_of_ascii "packet A {
+Eval vm_compute in ("<<<M798>>>" ++ check (runes_of_ascii "packet A {
   match k as n {
-    [""a"", ""bb"", 007] : B,
+    [""a"", ""bb"", ""c c"", ""d""] : B
     2 : C
   },
 }")).
-Eval vm_compute in ("<<<M2148>>>" ++ check (runes_of_ascii "options{
-_x
-= true
-} options
-{ o	= /// triple
-false
-    ; chars
-=")).
-Eval vm_compute in ("<<<M4118>>>" ++ check (runes_of_ascii "
-root packet
-    P
-	{
-repeat string ss ,
-
-    repeat	u16 ns,}
-")).
-Eval vm_compute in ("<<<M302>>>" ++ check (runes_of_ascii "
-packet
-    // a // b
-    matchKey{ @tag(//
-0 ) repeat u ,}
-
-")).
-Eval vm_compute in ("<<<M142>>>" ++ check (runes_of_ascii "options // `tick` ""quote"" 'q'
-{ repeatCount = 3/// triple
+Eval vm_compute in ("<<<M785>>>" ++ check (runes_of_ascii "packet A {
+  match k as n {
+    [""a"", ""bb"", ""c c""] : B
+    2 : C
+  },
 }")).
-Eval vm_compute in ("<<<M3367>>>" ++ check (runes_of_ascii "packet x // c
-{ @rightPad ( ) repeat roots Logon `doc` , }")).
-Eval vm_compute in ("<<<M3832>>>" ++ check (runes_of_ascii "root packet A {
-    u8 x `a
-            b
-          c`,
+Eval vm_compute in ("<<<M787>>>" ++ check (runes_of_ascii "packet A {
+  match k as n {
+    [1, ""bb"", 007] : B
+    2 : C
+  },
 }")).
-Eval vm_compute in ("<<<M585>>>" ++ check (runes_of_ascii "options {MetaDataX =
-// `tick` ""quote"" 'q'
-//	t
-0; }
+Eval vm_compute in ("<<<M103>>>" ++ check (runes_of_ascii "
+packet float {
+} MetaData As { char[]
+    trueish , }
+// " ++ [27880; 37322]%N ++ runes_of_ascii "
 ")).
+Eval vm_compute in ("<<<M771>>>" ++ check (runes_of_ascii "packet A {
+  match k as n {
+    [""a""] : B
+    2 : C
+  },
+}")).
+Eval vm_compute in ("<<<M925>>>" ++ check (runes_of_ascii "packet A {
+    B b `
+`,
+    B `
+`,
+    repeat B bs `
+`,
+}")).
 Eval vm_compute in ("<<<M226>>>" ++ check (runes_of_ascii "MetaData trueish { u64// trailing space 
 i8i8 , }")).
-Eval vm_compute in ("<<<M4054>>>" ++ check (runes_of_ascii "
-root
-packet
-
-u128 
-{ 
-chars// c
-
-	`it's`,
-	} ")).
-Eval vm_compute in ("<<<M3005>>>" ++ check (runes_of_ascii "MetaData M {
-    u8 x `a
-b`,
-    T t `a
-b`,
-}")).
-Eval vm_compute in ("<<<M1265>>>" ++ check (runes_of_ascii "  options //
-{ u8x
-=
-    zchar[ 0  ]
-    }")).
-Eval vm_compute in ("<<<M3189>>>" ++ check (runes_of_ascii "root // c
+Eval vm_compute in ("<<<M272>>>" ++ check (runes_of_ascii "
+root  packet zchar
+    {zchar[007] Foo , }")).
+Eval vm_compute in ("<<<M1100>>>" ++ check (runes_of_ascii "root // c
 packet u128 { chars `it's` , }")).
-Eval vm_compute in ("<<<M4296>>>" ++ check (runes_of_ascii "//x
-MetaData falsey {
-    string Pad,
-}")).
-Eval vm_compute in ("<<<M2616>>>" ++ check (runes_of_ascii "packet A { match k as n { x : B }, }")).
-Eval vm_compute in ("<<<M2812>>>" ++ check (runes_of_ascii "i64 @lengthOf( `// not a comment` (")).
-Eval vm_compute in ("<<<M2240>>>" ++ check (runes_of_ascii "options
-{ } options { BodyLength")).
-Eval vm_compute in ("<<<M4094>>>" ++ check (runes_of_ascii "
-root
-packet
-	i64_
+Eval vm_compute in ("<<<M1091>>>" ++ check (runes_of_ascii "packet A { u8 x,// a
 
-    {
+
+// b
+
+ u8 y, }")).
+Eval vm_compute in ("<<<M947>>>" ++ check (runes_of_ascii "root packet A {
+    u8 x `x
+`,
+}")).
+Eval vm_compute in ("<<<M1033>>>" ++ check (runes_of_ascii "packet A {
+ u8 x `d" ++ [12]%N ++ runes_of_ascii "`, // c" ++ [12]%N ++ runes_of_ascii "
+}")).
+Eval vm_compute in ("<<<M924>>>" ++ check (runes_of_ascii "packet A {
+    u8 x `
+`,
+}")).
+Eval vm_compute in ("<<<M285>>>" ++ check (runes_of_ascii "MetaData leftPad {
 }
 ")).
-Eval vm_compute in ("<<<M2810>>>" ++ check (runes_of_ascii "X{aZG^\F}_#)~""*yZ&5,]=E;#],:0N")).
-Eval vm_compute in ("<<<M3025>>>" ++ check (runes_of_ascii "packet A {
-    u8 x `a
-
-b`,
-}")).
-Eval vm_compute in ("<<<M2748>>>" ++ check (runes_of_ascii "L" ++ [1964; 65533; 65533]%N ++ runes_of_ascii "@" ++ [65533; 1940; 24]%N ++ runes_of_ascii "C" ++ [65533]%N ++ runes_of_ascii "e" ++ [65533]%N ++ runes_of_ascii "|=" ++ [65533; 65533; 820; 65533]%N ++ runes_of_ascii "d" ++ [65533]%N ++ runes_of_ascii "#" ++ [65533; 16]%N ++ runes_of_ascii "M" ++ [65533]%N ++ runes_of_ascii "p^")).
-Eval vm_compute in ("<<<M108>>>" ++ check (runes_of_ascii "packet  o {  } // " ++ [128512]%N ++ runes_of_ascii " emoji")).
-Eval vm_compute in ("<<<M1062>>>" ++ check (runes_of_ascii "MetaData
-f32a {	A x , }")).
-Eval vm_compute in ("<<<M2235>>>" ++ check (runes_of_ascii "options
-{ } options {")).
-Eval vm_compute in ("<<<M1227>>>" ++ check (runes_of_ascii "root packet i64_{	}
-")).
-Eval vm_compute in ("<<<M2596>>>" ++ check (runes_of_ascii "packet A { B { }, }")).
-Eval vm_compute in ("<<<M2775>>>" ++ check ([16]%N ++ runes_of_ascii "t" ++ [65533; 65533; 65533]%N ++ runes_of_ascii "N" ++ [65533; 65533]%N ++ runes_of_ascii "c" ++ [65533; 2]%N ++ runes_of_ascii "Y" ++ [65533]%N ++ runes_of_ascii "M+" ++ [65533; 65533]%N)).
-Eval vm_compute in ("<<<M3140>>>" ++ check (runes_of_ascii "packet A {
+Eval vm_compute in ("<<<M976>>>" ++ check (runes_of_ascii "packet A {
 }
-// c" ++ [6158]%N)).
-Eval vm_compute in ("<<<M3108>>>" ++ check (runes_of_ascii "packet A {
-}// c" ++ [8287]%N)).
-Eval vm_compute in ("<<<M2567>>>" ++ check (runes_of_ascii "packet A { u8 }")).
-Eval vm_compute in ("<<<M958>>>" ++ check (runes_of_ascii "options	{ }
-")).
-Eval vm_compute in ("<<<M2637>>>" ++ check (runes_of_ascii "packet A }")).
-Eval vm_compute in ("<<<M1680>>>" ++ check (runes_of_ascii "options")).
-Eval vm_compute in ("<<<M2744>>>" ++ check ([65533]%N ++ runes_of_ascii ")i}" ++ [65533]%N ++ runes_of_ascii ")")).
-Eval vm_compute in ("<<<M3074>>>" ++ check (runes_of_ascii "// c" ++ [133]%N)).
-Eval vm_compute in ("<<<M2526>>>" ++ check (runes_of_ascii "12ab")).
-Eval vm_compute in ("<<<M2533>>>" ++ check (runes_of_ascii "a.b")).
-Eval vm_compute in ("<<<M2537>>>" ++ check (runes_of_ascii "_1")).
+// c" ++ [12288]%N)).
+Eval vm_compute in ("<<<M1069>>>" ++ check (runes_of_ascii "MetaData M {
+}// c")).
+Eval vm_compute in ("<<<M1067>>>" ++ check (runes_of_ascii "
+
+  packet A {}")).
+Eval vm_compute in ("<<<M1055>>>" ++ check (runes_of_ascii "// c x")).
+Eval vm_compute in ("<<<M726>>>" ++ check (runes_of_ascii "//")).
